@@ -1,110 +1,885 @@
 """C03 - default classification follows the closest genome's lineage and thresholds.
 
-D1 threshold guard (direction, equality included, lineage order)   D2 Taxon.ancestors walk
-D3 non-strict classify: argmin, same-index pairing, result fields
-D4 guard establishment in GenomeMatch.next_taxon: every returned taxon passed a threshold-present test (CFG + forward
-   abstract interpretation over {none, checked, unchecked}); stop test has the same normal form as D1
-D5 reportable_taxon   D6 get_result_item wiring
+D1 matching_taxon      D2 Taxon.ancestors      D4 GenomeMatch.next_taxon      D5 reportable_taxon
+   decided by MEANING: the function (in whatever loop / generator / first-match syntax it is written, helpers included) is
+   evaluated by a small interpreter over the AST on every lineage of a finite domain (all chains up to depth 5, every node
+   without threshold / threshold below, equal to, above the distance / threshold 0.0 with distance 0.0; report flags
+   True/False/None) and its outcome (value, Python exception, non-termination) is compared with the result the property
+   text prescribes.  Every statement and both outcomes of every test of the evaluated functions must be exercised by the
+   domain, otherwise the analysis is undecided (a branch on values the domain does not contain).  Nothing of the repository
+   is executed: the interpreter only knows None/bool/number comparisons, attribute reads of the modelled objects, loops,
+   generators, next()/iter()/list(); anything else is exit 2.
+D3 non-strict classify: argmin, same-index pairing (through locals), fields of the result built on the path taken when
+   strict is false (symbolic walk of that path with copy propagation, so guard clauses, merged returns, locals are the same)
+D6 get_result_item wiring
 """
 import ast
+import copy
+import itertools
+import types
 
-from ..astutil import (u, atoms, guard_map, path_atoms, stmts_in, calls_in, callee, callee_attr, reaching_def, def_value,
-                       PARAM, AMBIGUOUS, raised_name, assigns_to, get_arg, get_kw, block_path, find_parent_map, is_none, is_const)
-from ..cfg import CFG, solve
+from ..astutil import (u, atoms, guard_map, path_atoms, stmts_in, calls_in, reaching_def, def_value, dotted, binds,
+                       PARAM, AMBIGUOUS, get_arg, get_kw, is_none, is_const)
 from ..report import Undecided
 
 CL = 'gambit.classify'
-NONE, CHK, UNCHK = 'none', 'chk', 'unchk'
-TOP = frozenset([UNCHK, NONE])
+TAXON = 'gambit.db.models.Taxon'
+
+
+# ------------------------------------------------------------------------------------------------ copy propagation
+class _Bound(ast.NodeVisitor):
+    """Names bound inside an expression (comprehension targets, lambda parameters, walrus)."""
+
+    def __init__(self):
+        self.names = set()
+
+    def visit_comprehension(self, node):
+        for n in ast.walk(node.target):
+            if isinstance(n, ast.Name):
+                self.names.add(n.id)
+        self.generic_visit(node)
+
+    def visit_Lambda(self, node):
+        a = node.args
+        self.names |= {x.arg for x in a.posonlyargs + a.args + a.kwonlyargs}
+        self.generic_visit(node)
+
+    def visit_NamedExpr(self, node):
+        self.names.add(node.target.id)
+        self.generic_visit(node)
+
+
+def _bound_names(expr):
+    b = _Bound()
+    b.visit(expr)
+    return b.names
+
+
+class Resolver:
+    """Copy propagation through structured reaching definitions: a value that was first bound to a local is the same value.
+    `top` follows Name -> its unique simple definition (original nodes are returned); `deep` returns a copy of the expression
+    in which every local that has one unique reaching definition is replaced by its (recursively resolved) value, each value
+    resolved AT ITS OWN definition.  Names bound to a value for which keep(value) holds stay names (objects with identity).
+    Locals with several possible definitions are collected in `unknown`: the caller must not decide on such a text."""
+
+    def __init__(self, fn, keep=None):
+        self.fn = fn
+        self.keep = keep or (lambda v: False)
+        self.unknown = []
+        # locals that are changed in place somewhere (x.append(..) / x.sort() as a statement, x[i] = .., x.a = .., del x[i]): their value is
+        # not the expression they were bound to, so they are never replaced by it
+        self.mutated = set()
+        for s in stmts_in(fn.body):
+            tg = []
+            if isinstance(s, ast.Expr) and isinstance(s.value, ast.Call) and isinstance(s.value.func, ast.Attribute):
+                tg = [s.value.func]
+            elif isinstance(s, ast.Assign):
+                tg = [t for t in s.targets if isinstance(t, (ast.Attribute, ast.Subscript))]
+            elif isinstance(s, (ast.AugAssign, ast.AnnAssign)) and isinstance(s.target, (ast.Attribute, ast.Subscript)):
+                tg = [s.target]
+            elif isinstance(s, ast.Delete):
+                tg = [t for t in s.targets if isinstance(t, (ast.Attribute, ast.Subscript))]
+            for t in tg:
+                while isinstance(t, (ast.Attribute, ast.Subscript)):
+                    t = t.value
+                if isinstance(t, ast.Name):
+                    self.mutated.add(t.id)
+
+    def _def(self, name, at):
+        d = reaching_def(self.fn, name, at)
+        if d is AMBIGUOUS:
+            return AMBIGUOUS
+        if d in (None, PARAM):
+            return None
+        return d
+
+    def top(self, expr, at, through_kept=False, trail=None):
+        k = 0
+        while isinstance(expr, ast.Name) and k < 30:
+            if trail is not None:
+                trail.append(expr.id)
+            d = self._def(expr.id, at)
+            v = def_value(d) if d not in (None, AMBIGUOUS) else None
+            if v is None or (self.keep(v) and not through_kept):
+                break
+            expr, at = v, d
+            k += 1
+        return expr, at
+
+    def deep(self, expr, at, _depth=0):
+        if expr is None:
+            return None
+        if _depth > 30:
+            raise Undecided(f'copy propagation does not terminate at {u(expr)}')
+        res = self
+        bound = _bound_names(expr)
+
+        class Sub(ast.NodeTransformer):
+            def visit_Name(self, node):
+                if not isinstance(node.ctx, ast.Load) or node.id in bound:
+                    return node
+                d = res._def(node.id, at)
+                if d is AMBIGUOUS:
+                    res.unknown.append(f'{node.id} (several possible definitions)')
+                    return node
+                v = def_value(d) if d is not None else None
+                if v is None or res.keep(v):
+                    return node
+                if node.id in res.mutated:
+                    res.unknown.append(f'{node.id} (changed in place after its definition)')
+                    return node
+                return res.deep(v, d, _depth + 1)
+        return Sub().visit(copy.deepcopy(expr))
+
+    def text(self, expr, at):
+        return u(self.deep(expr, at))
+
+
+_COPIES = {'list', 'tuple', 'np.asarray', 'numpy.asarray', 'np.asanyarray', 'numpy.asanyarray'}
+
+
+def strip_copies(expr):
+    """list(x) / tuple(x) / np.asarray(x) hold the same elements in the same order as x: for "which element is read at index i"
+    they are x.  (Applied to resolved copies only.)"""
+    class Strip(ast.NodeTransformer):
+        def visit_Call(self, node):
+            self.generic_visit(node)
+            if u(node.func) in _COPIES and len(node.args) == 1 and not node.keywords and not isinstance(node.args[0], ast.Starred):
+                return node.args[0]
+            return node
+    return Strip().visit(expr) if expr is not None else None
+
+
+def stmt_of(fn, node):
+    """Innermost statement of fn that contains the expression node."""
+    best = None
+    for s in stmts_in(fn.body):
+        if isinstance(s, (ast.FunctionDef, ast.AsyncFunctionDef, ast.ClassDef)):
+            continue
+        if any(x is node for x in ast.walk(s)):
+            best = s
+    return best
+
+
+# ------------------------------------------------------------------------------------------------ finite-domain evaluation
+class _PyErr(Exception):
+    """A Python exception the evaluated code would raise."""
+
+    def __init__(self, kind, detail=''):
+        Exception.__init__(self, kind, detail)
+        self.kind = kind
+        self.detail = detail
+
+
+class _Ret(Exception):
+    def __init__(self, value):
+        self.value = value
+
+
+class _Brk(Exception):
+    pass
+
+
+class _Cont(Exception):
+    pass
+
+
+class _Diverge(Exception):
+    pass
+
+
+class Obj:
+    """A modelled object: a bag of the attributes the property talks about."""
+
+    def __init__(self, kind, label, **attrs):
+        self.kind = kind
+        self.label = label
+        self.attrs = attrs
+
+    def __repr__(self):
+        return self.label
+
+
+class _Closure:
+    def __init__(self, node, scope, fi):
+        self.node = node
+        self.scope = scope
+        self.fi = fi
+
+
+class _Scope:
+    def __init__(self, parent=None):
+        self.vars = {}
+        self.parent = parent
+
+    def get(self, name):
+        s = self
+        while s is not None:
+            if name in s.vars:
+                return s.vars[name]
+            s = s.parent
+        raise KeyError(name)
+
+    def has(self, name):
+        s = self
+        while s is not None:
+            if name in s.vars:
+                return True
+            s = s.parent
+        return False
+
+    def function_scope(self):
+        s = self
+        while s.parent is not None:
+            s = s.parent
+        return s
+
+
+_NUM = (int, float)
+_CLASS_OF = {'Taxon': TAXON, 'GenomeMatch': f'{CL}.GenomeMatch'}
+
+
+def spec_ancestors(t, incself=False):
+    x = t if incself else t.attrs['parent']
+    while x is not None:
+        yield x
+        x = x.attrs['parent']
+
+
+class Walk:
+    """Interpreter for the taxonomy-walk vocabulary.  Unknown construct -> Undecided (never guessed)."""
+
+    BUDGET = 3000      # statements + iterations per call: far above what any walk over <= 5 taxa needs
+    DEPTH = 12
+
+    def __init__(self, model, own_ancestors=False):
+        self.m = model
+        self.own_ancestors = own_ancestors      # True while Taxon.ancestors itself is the subject (D2)
+        self.seen_stmt = set()
+        self.seen_test = {}
+        self.funcs = {}
+        self._gen = {}
+        self.steps = 0
+
+    # ---------------------------------------------------------------- bookkeeping
+    def _tick(self):
+        self.steps += 1
+        if self.steps > self.BUDGET:
+            raise _Diverge()
+
+    def _test(self, test, sc, fi, depth):
+        v = self.truth(self.ev(test, sc, fi, depth))
+        self.seen_test.setdefault(id(test), set()).add(v)
+        return v
+
+    def uncovered(self):
+        """Statements never executed / tests that had only one outcome over all runs, in the evaluated functions."""
+        out = []
+        for fi in self.funcs.values():
+            for s in stmts_in(fi.node.body):
+                if isinstance(s, (ast.FunctionDef, ast.AsyncFunctionDef, ast.ClassDef)):
+                    continue
+                if id(s) not in self.seen_stmt:
+                    out.append((fi, s, f'statement never reached: {u(s)[:70]}'))
+            for n in ast.walk(fi.node):
+                tests = []
+                if isinstance(n, (ast.If, ast.While, ast.IfExp)):
+                    tests = [n.test]
+                elif isinstance(n, ast.comprehension):
+                    tests = list(n.ifs)
+                for t in tests:
+                    if isinstance(t, ast.Constant):
+                        continue
+                    got = self.seen_test.get(id(t))
+                    if got is not None and len(got) < 2:
+                        out.append((fi, n if isinstance(n, ast.stmt) else t, f'test {u(t)[:70]} is always {sorted(got)[0]} on the domain'))
+        return out
+
+    # ---------------------------------------------------------------- calls
+    def run(self, fi, args, kwargs=None):
+        """One top-level evaluation -> ('value', v) | ('raises', kind) | ('diverges',)."""
+        self.steps = 0
+        try:
+            v = self.call(fi, list(args), dict(kwargs or {}), 0)
+            if isinstance(v, types.GeneratorType):
+                v = list(v)
+            return ('value', v)
+        except _PyErr as e:
+            return ('raises', e.kind)
+        except _Diverge:
+            return ('diverges',)
+        except RecursionError:
+            return ('diverges',)
+
+    def call(self, fi, args, kwargs, depth):
+        if depth > self.DEPTH:
+            raise _Diverge()
+        self.funcs[fi.qualname] = fi
+        a = fi.node.args
+        if a.vararg or a.kwarg:
+            raise Undecided(f'{fi.qualname}: *args/**kwargs parameters are outside the evaluated vocabulary')
+        sc = _Scope()
+        pos = [x.arg for x in a.posonlyargs + a.args]
+        if len(args) > len(pos):
+            raise _PyErr('TypeError', 'too many positional arguments')
+        for name, v in zip(pos, args):
+            sc.vars[name] = v
+        for k, v in kwargs.items():
+            if k in sc.vars or k not in pos + [x.arg for x in a.kwonlyargs]:
+                raise _PyErr('TypeError', f'unexpected argument {k}')
+            sc.vars[k] = v
+        defaults = dict(zip(pos[len(pos) - len(a.defaults):], a.defaults))
+        defaults.update({x.arg: d for x, d in zip(a.kwonlyargs, a.kw_defaults) if d is not None})
+        for name in pos + [x.arg for x in a.kwonlyargs]:
+            if name not in sc.vars:
+                if name not in defaults:
+                    raise _PyErr('TypeError', f'missing argument {name}')
+                sc.vars[name] = self.ev(defaults[name], _Scope(), fi, depth)
+        is_gen = self._gen.get(fi.qualname)
+        if is_gen is None:
+            is_gen = self._gen[fi.qualname] = any(isinstance(n, (ast.Yield, ast.YieldFrom)) for s in fi.node.body for n in _walk_own(s))
+        body = self._block(fi.node.body, sc, fi, depth)
+        if is_gen:
+            def gen():
+                try:
+                    yield from body
+                except _Ret:
+                    return
+            return gen()
+        try:
+            for _ in body:
+                raise Undecided(f'{fi.qualname}: yield outside a generator')
+        except _Ret as r:
+            return r.value
+        return None
+
+    def _package_callee(self, fi, call):
+        r = self.m.resolve_call(fi, call)
+        return self.m.functions.get(r) if r else None
+
+    def _method(self, obj, name):
+        cq = _CLASS_OF.get(obj.kind)
+        return self.m.find_method(cq, name) if cq and cq in self.m.classes else None
+
+    def ev_call(self, e, sc, fi, depth):
+        f = e.func
+        if any(isinstance(x, ast.Starred) for x in e.args) or any(k.arg is None for k in e.keywords):
+            raise Undecided(f'{fi.qualname}: star-arguments in {u(e)}')
+
+        def args():
+            return [self.ev(x, sc, fi, depth) for x in e.args], {k.arg: self.ev(k.value, sc, fi, depth) for k in e.keywords}
+        if isinstance(f, ast.Attribute):
+            base = self.ev(f.value, sc, fi, depth)
+            if base is None:
+                raise _PyErr('AttributeError', f'None.{f.attr}')
+            if isinstance(base, Obj):
+                if base.kind == 'Taxon' and f.attr == 'ancestors' and not self.own_ancestors:
+                    av, kv = args()
+                    if len(av) > 1 or set(kv) - {'incself'} or (av and kv):
+                        raise _PyErr('TypeError', 'ancestors() arguments')
+                    inc = av[0] if av else kv.get('incself', False)
+                    return spec_ancestors(base, self.truth(inc))
+                mfi = self._method(base, f.attr)
+                if mfi is not None:
+                    if any(dotted(d) in ('property', 'classmethod', 'staticmethod') for d in mfi.decorators):
+                        raise Undecided(f'{fi.qualname}: call of decorated method {mfi.qualname}')
+                    av, kv = args()
+                    return self.call(mfi, [base] + av, kv, depth + 1)
+            raise Undecided(f'{fi.qualname}: method call outside the evaluated vocabulary: {u(e)}')
+        if isinstance(f, ast.Name) and sc.has(f.id):
+            c = sc.get(f.id)
+            if isinstance(c, _Closure):
+                av, kv = args()
+                return self._apply(c, av, kv, depth)
+            raise Undecided(f'{fi.qualname}: call of a local value: {u(e)}')
+        if isinstance(f, ast.Lambda):
+            av, kv = args()
+            return self._apply(_Closure(f, sc, fi), av, kv, depth)
+        target = self._package_callee(fi, e)
+        if target is not None:
+            av, kv = args()
+            return self.call(target, av, kv, depth + 1)
+        if isinstance(f, ast.Name) and self.m.resolve(fi.module, f) is None:
+            av, kv = args()
+            return self._builtin(f.id, av, kv, e, fi, depth)
+        raise Undecided(f'{fi.qualname}: call outside the evaluated vocabulary: {u(e)}')
+
+    def _apply(self, c, av, kv, depth):
+        if depth > self.DEPTH:
+            raise _Diverge()
+        a = c.node.args
+        names = [x.arg for x in a.posonlyargs + a.args]
+        if kv or a.defaults or a.vararg or a.kwarg or a.kwonlyargs or len(av) != len(names):
+            raise Undecided(f'lambda with a non-trivial signature: {u(c.node)}')
+        s2 = _Scope(c.scope)
+        s2.vars.update(zip(names, av))
+        return self.ev(c.node.body, s2, c.fi, depth + 1)
+
+    def _iter(self, v):
+        if isinstance(v, (list, tuple)):
+            return iter(v)
+        if isinstance(v, (types.GeneratorType, itertools.chain)) or type(v).__name__.endswith('iterator'):
+            return v
+        raise _PyErr('TypeError', 'object is not iterable')
+
+    def _builtin(self, name, av, kv, e, fi, depth):
+        if kv:
+            raise Undecided(f'{fi.qualname}: keyword arguments to builtin {name}')
+        if name == 'next' and len(av) in (1, 2):
+            it = av[0]
+            if isinstance(it, (list, tuple)) or not (isinstance(it, types.GeneratorType) or type(it).__name__.endswith('iterator')):
+                raise _PyErr('TypeError', 'next() of a non-iterator')
+            for x in it:
+                return x
+            if len(av) == 2:
+                return av[1]
+            raise _PyErr('StopIteration')
+        if name == 'iter' and len(av) == 1:
+            return iter(self._iter(av[0]))
+        if name in ('list', 'tuple') and len(av) <= 1:
+            items = [x for x in self._iter(av[0])] if av else []
+            return items if name == 'list' else tuple(items)
+        if name == 'reversed' and len(av) == 1 and isinstance(av[0], (list, tuple)):
+            return iter(list(reversed(av[0])))
+        if name == 'bool' and len(av) == 1:
+            return self.truth(av[0])
+        if name == 'len' and len(av) == 1 and isinstance(av[0], (list, tuple)):
+            return len(av[0])
+        if name in ('any', 'all') and len(av) == 1:
+            for x in self._iter(av[0]):
+                t = self.truth(x)
+                if name == 'any' and t:
+                    return True
+                if name == 'all' and not t:
+                    return False
+            return name == 'all'
+        if name == 'filter' and len(av) == 2:
+            pred, it = av[0], self._iter(av[1])
+            if pred is not None and not isinstance(pred, _Closure):
+                raise Undecided(f'{fi.qualname}: filter() with a predicate that is not a lambda / None')
+            return (x for x in it if self.truth(x if pred is None else self._apply(pred, [x], {}, depth)))
+        raise Undecided(f'{fi.qualname}: call outside the evaluated vocabulary: {u(e)}')
+
+    # ---------------------------------------------------------------- expressions
+    def truth(self, v):
+        if v is None:
+            return False
+        if isinstance(v, bool):
+            return v
+        if isinstance(v, _NUM):
+            return v != 0
+        if isinstance(v, (list, tuple, str)):
+            return len(v) > 0
+        if isinstance(v, Obj):
+            return True                      # plain model / attrs objects: no __bool__, no __len__
+        if isinstance(v, (types.GeneratorType, _Closure)) or type(v).__name__.endswith('iterator'):
+            return True
+        raise Undecided(f'truth value of {v!r}')
+
+    def _cmp(self, op, l, r, node, fi):
+        t = type(op).__name__
+        if t in ('Is', 'IsNot'):
+            if l is not None and r is not None and (isinstance(l, (float, list, tuple)) or isinstance(r, (float, list, tuple))):
+                raise Undecided(f'{fi.qualname}: identity test of numbers / sequences: {u(node)}')
+            return (l is r) == (t == 'Is')
+        if t in ('Eq', 'NotEq'):
+            if isinstance(l, Obj) or isinstance(r, Obj) or l is None or r is None:
+                same = l is r
+            elif isinstance(l, _NUM) and isinstance(r, _NUM):
+                same = l == r
+            elif type(l) is type(r) and isinstance(l, (str, list, tuple)):
+                same = l == r
+            else:
+                raise Undecided(f'{fi.qualname}: equality outside the vocabulary: {u(node)}')
+            return same == (t == 'Eq')
+        if t in ('Lt', 'LtE', 'Gt', 'GtE'):
+            if not (isinstance(l, _NUM) and isinstance(r, _NUM)):
+                raise _PyErr('TypeError', f'ordering comparison of {l!r} and {r!r}')
+            return {'Lt': l < r, 'LtE': l <= r, 'Gt': l > r, 'GtE': l >= r}[t]
+        if t in ('In', 'NotIn'):
+            found = False
+            for x in self._iter(r):
+                if x is l or (isinstance(x, _NUM) and isinstance(l, _NUM) and not isinstance(x, bool) and x == l):
+                    found = True
+                    break
+            return found == (t == 'In')
+        raise Undecided(f'{fi.qualname}: comparison {u(node)}')
+
+    def ev(self, e, sc, fi, depth):
+        if isinstance(e, ast.Constant):
+            if e.value is None or isinstance(e.value, (bool, int, float, str)):
+                return e.value
+            raise Undecided(f'{fi.qualname}: constant {u(e)}')
+        if isinstance(e, ast.Name):
+            if sc.has(e.id):
+                return sc.get(e.id)
+            raise Undecided(f'{fi.qualname}: name {e.id} is not a local of the evaluated function')
+        if isinstance(e, ast.Attribute):
+            base = self.ev(e.value, sc, fi, depth)
+            if base is None:
+                raise _PyErr('AttributeError', f'None.{e.attr}')
+            if isinstance(base, Obj):
+                if e.attr in base.attrs:
+                    return base.attrs[e.attr]
+                mfi = self._method(base, e.attr)
+                if mfi is not None and any(dotted(d) == 'property' for d in mfi.decorators):
+                    return self.call(mfi, [base], {}, depth + 1)
+                raise Undecided(f'{fi.qualname}: attribute .{e.attr} of a {base.kind} is outside the modelled attributes ({sorted(base.attrs)})')
+            raise Undecided(f'{fi.qualname}: attribute access {u(e)}')
+        if isinstance(e, ast.UnaryOp) and isinstance(e.op, ast.Not):
+            return not self.truth(self.ev(e.operand, sc, fi, depth))
+        if isinstance(e, ast.BoolOp):
+            v = None
+            for x in e.values:
+                v = self.ev(x, sc, fi, depth)
+                t = self.truth(v)
+                if isinstance(e.op, ast.And) and not t:
+                    return v
+                if isinstance(e.op, ast.Or) and t:
+                    return v
+            return v
+        if isinstance(e, ast.Compare):
+            left = self.ev(e.left, sc, fi, depth)
+            for op, r in zip(e.ops, e.comparators):
+                right = self.ev(r, sc, fi, depth)
+                if not self._cmp(op, left, right, e, fi):
+                    return False
+                left = right
+            return True
+        if isinstance(e, ast.IfExp):
+            return self.ev(e.body if self._test(e.test, sc, fi, depth) else e.orelse, sc, fi, depth)
+        if isinstance(e, (ast.Tuple, ast.List)):
+            if any(isinstance(x, ast.Starred) for x in e.elts):
+                raise Undecided(f'{fi.qualname}: starred element in {u(e)}')
+            items = [self.ev(x, sc, fi, depth) for x in e.elts]
+            return tuple(items) if isinstance(e, ast.Tuple) else items
+        if isinstance(e, (ast.GeneratorExp, ast.ListComp)):
+            first = self._iter(self.ev(e.generators[0].iter, sc, fi, depth))     # evaluated eagerly, as Python does
+            inner = _Scope(sc)
+
+            def comp(k, it0=None):
+                g = e.generators[k]
+                if g.is_async:
+                    raise Undecided(f'{fi.qualname}: async comprehension')
+                it = it0 if k == 0 else self._iter(self.ev(g.iter, inner, fi, depth))
+                for x in it:
+                    self._tick()
+                    self._bind(g.target, x, inner, fi)
+                    if all(self._test(c, inner, fi, depth) for c in g.ifs):
+                        if k + 1 < len(e.generators):
+                            yield from comp(k + 1)
+                        else:
+                            yield self.ev(e.elt, inner, fi, depth)
+            gen = comp(0, first)
+            return gen if isinstance(e, ast.GeneratorExp) else list(gen)
+        if isinstance(e, ast.Lambda):
+            return _Closure(e, sc, fi)
+        if isinstance(e, ast.Call):
+            return self.ev_call(e, sc, fi, depth)
+        if isinstance(e, ast.Subscript):
+            base = self.ev(e.value, sc, fi, depth)
+            idx = self.ev(e.slice, sc, fi, depth) if not isinstance(e.slice, ast.Slice) else None
+            if isinstance(e.slice, ast.UnaryOp) and isinstance(e.slice.op, ast.USub) and isinstance(e.slice.operand, ast.Constant):
+                idx = -e.slice.operand.value
+            if isinstance(base, (list, tuple)) and isinstance(idx, int) and not isinstance(idx, bool):
+                if -len(base) <= idx < len(base):
+                    return base[idx]
+                raise _PyErr('IndexError')
+            raise Undecided(f'{fi.qualname}: subscript outside the vocabulary: {u(e)}')
+        if isinstance(e, ast.UnaryOp) and isinstance(e.op, ast.USub) and isinstance(e.operand, ast.Constant) and isinstance(e.operand.value, _NUM):
+            return -e.operand.value
+        if isinstance(e, ast.NamedExpr):
+            v = self.ev(e.value, sc, fi, depth)
+            sc.function_scope().vars[e.target.id] = v
+            return v
+        raise Undecided(f'{fi.qualname}: expression outside the evaluated vocabulary: {u(e)[:80]}')
+
+    # ---------------------------------------------------------------- statements
+    def _bind(self, target, value, sc, fi):
+        if isinstance(target, ast.Name):
+            sc.vars[target.id] = value
+            return
+        if isinstance(target, (ast.Tuple, ast.List)) and isinstance(value, (tuple, list)) and not any(isinstance(x, ast.Starred) for x in target.elts):
+            if len(target.elts) != len(value):
+                raise _PyErr('ValueError', 'unpacking')
+            for t, v in zip(target.elts, value):
+                self._bind(t, v, sc, fi)
+            return
+        raise Undecided(f'{fi.qualname}: assignment target outside the vocabulary: {u(target)}')
+
+    def _block(self, stmts, sc, fi, depth):
+        for s in stmts:
+            yield from self._stmt(s, sc, fi, depth)
+
+    def _stmt(self, s, sc, fi, depth):
+        self._tick()
+        self.seen_stmt.add(id(s))
+        if isinstance(s, ast.Expr):
+            v = s.value
+            if isinstance(v, ast.Constant):
+                return
+            if isinstance(v, ast.Yield):
+                yield (self.ev(v.value, sc, fi, depth) if v.value is not None else None)
+                return
+            if isinstance(v, ast.YieldFrom):
+                for x in self._iter(self.ev(v.value, sc, fi, depth)):
+                    self._tick()
+                    yield x
+                return
+            raise Undecided(f'{fi.qualname}: expression statement outside the evaluated vocabulary: {u(s)[:80]}')
+        if isinstance(s, ast.Assign):
+            v = self.ev(s.value, sc, fi, depth)
+            for t in s.targets:
+                self._bind(t, v, sc, fi)
+            return
+        if isinstance(s, ast.AnnAssign):
+            if s.value is not None:
+                self._bind(s.target, self.ev(s.value, sc, fi, depth), sc, fi)
+            return
+        if isinstance(s, ast.If):
+            yield from self._block(s.body if self._test(s.test, sc, fi, depth) else s.orelse, sc, fi, depth)
+            return
+        if isinstance(s, ast.While):
+            while True:
+                self._tick()
+                if not self._test(s.test, sc, fi, depth):
+                    yield from self._block(s.orelse, sc, fi, depth)
+                    return
+                try:
+                    yield from self._block(s.body, sc, fi, depth)
+                except _Brk:
+                    return
+                except _Cont:
+                    continue
+        if isinstance(s, ast.For):
+            it = self._iter(self.ev(s.iter, sc, fi, depth))
+            for x in it:
+                self._tick()
+                self._bind(s.target, x, sc, fi)
+                try:
+                    yield from self._block(s.body, sc, fi, depth)
+                except _Brk:
+                    return
+                except _Cont:
+                    continue
+            yield from self._block(s.orelse, sc, fi, depth)
+            return
+        if isinstance(s, ast.Return):
+            raise _Ret(self.ev(s.value, sc, fi, depth) if s.value is not None else None)
+        if isinstance(s, ast.Break):
+            raise _Brk()
+        if isinstance(s, ast.Continue):
+            raise _Cont()
+        if isinstance(s, ast.Pass):
+            return
+        if isinstance(s, ast.Assert):
+            if not self._test(s.test, sc, fi, depth):
+                raise _PyErr('AssertionError')
+            return
+        if isinstance(s, ast.Raise):
+            if s.exc is None:
+                raise Undecided(f'{fi.qualname}: bare raise')
+            exc = s.exc.func if isinstance(s.exc, ast.Call) else s.exc
+            raise _PyErr(dotted(exc) or 'Exception')
+        if isinstance(s, ast.Try):
+            try:
+                try:
+                    yield from self._block(s.body, sc, fi, depth)
+                except _PyErr as e:
+                    kinds = {e.kind, 'Exception', 'BaseException'} | ({'LookupError'} if e.kind in ('IndexError', 'KeyError') else set())
+                    for h in s.handlers:
+                        names = None if h.type is None else [dotted(x) for x in (h.type.elts if isinstance(h.type, ast.Tuple) else [h.type])]
+                        if names is None or kinds & set(names):
+                            if h.name:
+                                sc.vars[h.name] = Obj('Exception', e.kind)
+                            yield from self._block(h.body, sc, fi, depth)
+                            break
+                    else:
+                        raise
+                else:
+                    yield from self._block(s.orelse, sc, fi, depth)
+            except (_PyErr, _Ret, _Brk, _Cont):
+                yield from self._block(s.finalbody, sc, fi, depth)
+                raise
+            yield from self._block(s.finalbody, sc, fi, depth)
+            return
+        raise Undecided(f'{fi.qualname}: statement outside the evaluated vocabulary: {u(s)[:80]}')
+
+
+def _walk_own(node):
+    """Nodes of a statement, not descending into nested defs / lambdas / classes."""
+    stack = [node]
+    while stack:
+        n = stack.pop()
+        yield n
+        for c in ast.iter_child_nodes(n):
+            if not isinstance(c, (ast.FunctionDef, ast.AsyncFunctionDef, ast.ClassDef, ast.Lambda)):
+                stack.append(c)
+
+
+# ---------------------------------------------------------------- the domain and the prescribed results
+def chain(thrs, reports=None):
+    """Lineage bottom -> top: node 0 is the genome's own taxon."""
+    nodes = []
+    parent = None
+    for k in reversed(range(len(thrs))):
+        rp = reports[k] if reports is not None else False
+        n = Obj('Taxon', f'T{k}(thr={thrs[k]}' + (f', report={rp}' if reports is not None else '') + ')', parent=parent, distance_threshold=thrs[k], report=rp)
+        nodes.append(n)
+        parent = n
+    nodes.reverse()
+    return nodes
+
+
+def threshold_domain():
+    """(thresholds bottom->top, distance): every pattern of absent / below / equal / above thresholds, not monotone included,
+    zero thresholds with zero distance (a threshold of 0.0 is a threshold)."""
+    for n in range(1, 5):
+        for thrs in itertools.product((None, 0.0, 0.5, 1.0, 2.0), repeat=n):
+            yield thrs, 1.0
+    for thrs in itertools.product((None, 0.5, 1.0, 2.0), repeat=5):
+        yield thrs, 1.0
+    for n in range(1, 6):
+        for thrs in itertools.product((None, 0.0, 1.0), repeat=n):
+            yield thrs, 0.0
+
+
+def report_domain():
+    for n in range(1, 5):
+        yield from itertools.product((True, False, None), repeat=n)
+
+
+def spec_matching(t, d):
+    for x in spec_ancestors(t, True):
+        thr = x.attrs['distance_threshold']
+        if thr is not None and d <= thr:
+            return x
+    return None
+
+
+def spec_next(t, d):
+    bearing = [x for x in spec_ancestors(t, True) if x.attrs['distance_threshold'] is not None]
+    for k, x in enumerate(bearing):
+        if d <= x.attrs['distance_threshold']:
+            return bearing[k - 1] if k else None      # nearest threshold-bearing taxon below the prediction
+    return bearing[-1] if bearing else None           # nothing predicted: the topmost threshold-bearing one
+
+
+def spec_reportable(t):
+    if t is None:
+        return None
+    for x in spec_ancestors(t, True):
+        if x.attrs['report']:
+            return x
+    return None
+
+
+def _show(outcome):
+    if outcome[0] == 'value':
+        return f'returns {outcome[1]!r}'
+    if outcome[0] == 'raises':
+        return f'raises {outcome[1]}'
+    return 'does not terminate'
+
+
+def _same(got, want):
+    if isinstance(want, list):
+        return isinstance(got, list) and len(got) == len(want) and all(x is y for x, y in zip(got, want))
+    return got is want
+
+
+def decide_by_evaluation(ctx, rule, fi, cases, desc, expected_text, stmt, own_ancestors=False, extra_runs=()):
+    """cases: iterable of (label, args, kwargs, expected value).  One obligation: the function returns the prescribed value
+    on every case; then the coverage condition (undecided when the domain does not exercise some branch)."""
+    rep = ctx.rep
+    w = Walk(ctx.model, own_ancestors=own_ancestors)
+    bad = []
+    n = 0
+    for label, args, kwargs, want in cases:
+        n += 1
+        got = w.run(fi, args, kwargs)
+        if not (got[0] == 'value' and _same(got[1], want)) and len(bad) < 3:
+            bad.append(f'{label}: {_show(got)}, prescribed {want!r}')
+    for args, kwargs in extra_runs:      # exercised for coverage only (inputs the property does not speak about)
+        w.run(fi, args, kwargs)
+    rep.info[f'{rule}_evaluations'] = rep.info.get(f'{rule}_evaluations', 0) + n
+    rep.add(rule, fi.site(), desc, not bad, expected=expected_text, found='; '.join(bad) if bad else f'{n} lineages evaluated, all as prescribed', stmt=stmt)
+    if not bad:
+        unc = w.uncovered()
+        if unc:
+            f2, node, why = unc[0]
+            raise Undecided(f'{f2.qualname}: the evaluated lineage domain does not exercise every branch, so the rule cannot decide what the function does on other inputs ({why}, '
+                            f'{f2.file}:{getattr(node, "lineno", 0)})')
+    return not bad
 
 
 # ------------------------------------------------------------------------------------------------ D1
 def check_matching_taxon(ctx):
-    rep, m = ctx.rep, ctx.model
+    m = ctx.model
     fi = m.func(f'{CL}.matching_taxon')
-    rep.functions.add(fi.qualname)
-    tp, dp = fi.params()[:2]
-    fors = [s for s in fi.node.body if isinstance(s, ast.For)]
-    rep.require(len(fors) == 1 and isinstance(fors[0].target, ast.Name), 'matching_taxon: expected one for loop')
-    loop = fors[0]
-    t = loop.target.id
-    it = loop.iter
-    inc = get_arg(it, 0, 'incself') if isinstance(it, ast.Call) else None
-    ok = isinstance(it, ast.Call) and callee_attr(it) == 'ancestors' and u(it.func.value) == tp and inc not in (None, Ellipsis) and is_const(inc, True)
-    rep.add('D1', fi.site(loop), 'the lineage is walked from the taxon itself upwards', ok, expected=f'{tp}.ancestors(incself=True)', found=u(it), stmt='lineage walk')
-    gm = guard_map(fi.node)
-    rets = [s for s in stmts_in(loop.body) if isinstance(s, ast.Return)]
-    rep.floor('D1', 'returns inside the lineage loop', len(rets), 1)
-    want = {('isnot', 'None', f'{t}.distance_threshold'), ('le', dp, f'{t}.distance_threshold')}
-    for r in rets:
-        at = path_atoms(gm[r])
-        rep.add('D1', fi.site(r), 'a taxon is returned exactly when it has a threshold and the distance does not exceed it (equality matches)', at == want,
-                expected=sorted(want), found=sorted(at), stmt='threshold guard')
-        rep.add('D1', fi.site(r), 'the returned taxon is the one just tested (first match = most specific)', u(r.value) == t, expected=t, found=u(r.value), stmt='returned taxon')
-    leaves = [s for s in stmts_in(loop.body) if isinstance(s, (ast.Break, ast.Continue))]
-    rep.add('D1', fi.site(loop), 'the walk is not cut short', not leaves and not loop.orelse, expected='no break/continue', found=[u(x) for x in leaves], stmt='walk exits')
-    last = fi.node.body[-1]
-    rep.add('D1', fi.site(last), 'no prediction when no taxon of the lineage qualifies', isinstance(last, ast.Return) and (last.value is None or is_none(last.value)), expected='return None',
-            found=u(last), stmt='no match')
-    rep.account_returns('D1', fi, rets + ([last] if isinstance(last, ast.Return) else []), 'matched taxon')
-    return want
+    ctx.rep.functions.add(fi.qualname)
+    ctx.rep.require(len(fi.params()) >= 2, 'matching_taxon: expected (taxon, d) parameters')
+
+    def cases():
+        for thrs, d in threshold_domain():
+            nodes = chain(thrs)
+            yield f'lineage thresholds (own taxon first) {list(thrs)}, distance {d}', [nodes[0], d], {}, spec_matching(nodes[0], d)
+    decide_by_evaluation(ctx, 'D1', fi, cases(), 'matching_taxon returns the most specific taxon of the lineage (the taxon itself first, then its ancestors) that has a threshold not smaller '
+                         'than the distance (equality matches, a threshold of 0.0 is a threshold), None when there is none',
+                         'first t in taxon.ancestors(incself=True) with t.distance_threshold is not None and d <= t.distance_threshold, else None', 'matched taxon')
 
 
 # ------------------------------------------------------------------------------------------------ D2
 def check_ancestors(ctx):
     rep, m = ctx.rep, ctx.model
-    fi = m.func('gambit.db.models.Taxon.ancestors')
+    fi = m.func(f'{TAXON}.ancestors')
     rep.functions.add(fi.qualname)
-    body = [s for s in fi.node.body if not (isinstance(s, ast.Expr) and isinstance(s.value, ast.Constant))]
-    rep.require(len(body) == 2 and isinstance(body[0], ast.Assign) and isinstance(body[1], ast.While), 'Taxon.ancestors: unexpected shape')
-    init, loop = body
-    cur = u(init.targets[0])
-    v = init.value
+    rep.require(len(fi.params()) >= 2, 'Taxon.ancestors: expected (self, incself) parameters')
     inc = fi.params()[1]
-    ok = isinstance(v, ast.IfExp) and u(v.test) == inc and u(v.body) == 'self' and u(v.orelse) == 'self.parent'
-    rep.add('D2', fi.site(init), 'starts at the taxon itself iff incself, else at its parent', ok, expected='self if incself else self.parent', found=u(v), stmt='walk start')
-    at = atoms(loop.test)
-    rep.add('D2', fi.site(loop), 'continues until the root has been passed', at == {('isnot', 'None', cur)}, expected=f'{cur} is not None', found=sorted(at or []), stmt='walk condition')
-    lb = loop.body
-    ok = len(lb) == 2 and isinstance(lb[0], ast.Expr) and isinstance(lb[0].value, ast.Yield) and u(lb[0].value.value) == cur \
-        and isinstance(lb[1], ast.Assign) and u(lb[1].targets[0]) == cur and u(lb[1].value) == f'{cur}.parent'
-    rep.add('D2', fi.site(loop), 'yields each taxon then steps to its parent (most specific first, none skipped)', ok, expected=f'yield {cur}; {cur} = {cur}.parent', found=[u(s) for s in lb],
-            stmt='walk step')
-    d = fi.param_default(inc)
-    rep.add('D2', fi.site(), 'incself defaults to False (callers that need the taxon itself say so)', d is not None and is_const(d, False), expected='False', found=u(d), stmt='incself default')
+
+    def cases():
+        for n in range(1, 5):
+            nodes = chain([None] * n)
+            for start in range(n):
+                yield f'lineage of {n} taxa, from taxon {start}, incself=True', [nodes[start]], {inc: True}, nodes[start:]
+                yield f'lineage of {n} taxa, from taxon {start}, incself=False', [nodes[start]], {inc: False}, nodes[start + 1:]
+                yield f'lineage of {n} taxa, from taxon {start}, incself omitted', [nodes[start]], {}, nodes[start + 1:]
+    decide_by_evaluation(ctx, 'D2', fi, cases(), 'Taxon.ancestors yields the taxon itself iff incself (default: not), then every ancestor up to the root, most specific first, none skipped',
+                         'self (iff incself), self.parent, self.parent.parent, ... until None', 'lineage walk', own_ancestors=True)
 
 
 # ------------------------------------------------------------------------------------------------ D3
 def classify_head(ctx, rule='D3'):
-    """closest = argmin; closest_match built with one index. Shared with C09-Q2."""
+    """closest = argmin; closest_match built with one index (possibly through locals). Shared with C09-Q2."""
     rep, m = ctx.rep, ctx.model
     fi = m.func(f'{CL}.classify')
     rep.functions.add(fi.qualname)
     fn = fi.node
     refs, dists = fi.params()[:2]
+    res = Resolver(fn, keep=lambda v: isinstance(v, ast.Call) and m.resolve_call(fi, v) in (f'{CL}.GenomeMatch', f'{CL}.ClassifierResult'))
     gms = [c for c in calls_in(fn) if m.resolve_call(fi, c) == f'{CL}.GenomeMatch']
     rep.require(gms, 'classify: no GenomeMatch construction')
-    first = min(gms, key=lambda c: c.lineno)
-    st = next(s for s in fn.body if isinstance(s, ast.Assign) and s.value is first) if any(isinstance(s, ast.Assign) and s.value is first for s in fn.body) else None
-    rep.require(st is not None and isinstance(st.targets[0], ast.Name), 'classify: closest match is not a top-level assignment')
+    # by role, not by line: the first match constructed at the top level of classify, in statement order (expanded helpers keep their own line numbers)
+    st = next((s for s in fn.body if isinstance(s, ast.Assign) and any(s.value is c for c in gms)), None)
+    rep.require(st is not None and len(st.targets) == 1 and isinstance(st.targets[0], ast.Name), 'classify: closest match is not a top-level assignment')
+    first = st.value
     cm = st.targets[0].id
-    g = get_arg(first, 0, 'genome')
-    d = get_arg(first, 1, 'distance')
-    mt = get_arg(first, 2, 'matched_taxon')
-    rep.require(isinstance(g, ast.Subscript) and isinstance(d, ast.Subscript), f'classify: closest match genome/distance are not subscripts: {u(first)}')
-    idx = g.slice
+    g0, d0, mt = get_arg(first, 0, 'genome'), get_arg(first, 1, 'distance'), get_arg(first, 2, 'matched_taxon')
+    rep.require(g0 not in (None, Ellipsis) and d0 not in (None, Ellipsis), f'classify: closest match without genome/distance arguments: {u(first)}')
+    g, d = strip_copies(res.deep(g0, st)), strip_copies(res.deep(d0, st))
+    rep.require(not res.unknown, f'classify: locals whose value cannot be traced to one expression feed the closest match: {sorted(set(res.unknown))}')
+    rep.require(isinstance(g, ast.Subscript) and isinstance(d, ast.Subscript), f'classify: closest match genome/distance are not subscripts: {u(first)} (resolved: {u(g)}, {u(d)})')
     rep.add(rule, fi.site(first), 'closest genome and its distance are taken at the same index of the two parallel sequences',
-            u(g.value) == refs and u(d.value) == dists and u(d.slice) == u(idx), expected=f'{refs}[c], {dists}[c]', found=(u(g), u(d)), stmt='closest pairing')
-    iv = idx
-    if isinstance(idx, ast.Name):
-        dd = reaching_def(fn, idx.id, st)
-        iv = def_value(dd) if dd not in (None, PARAM, AMBIGUOUS) else None
+            u(g.value) == refs and u(d.value) == dists and u(d.slice) == u(g.slice), expected=f'{refs}[c], {dists}[c]', found=(u(g), u(d)), stmt='closest pairing')
+    iv = g.slice
     argmin = isinstance(iv, ast.Call) and ((u(iv.func) in ('np.argmin', 'numpy.argmin') and [u(a) for a in iv.args] == [dists] and not iv.keywords)
                                            or (u(iv.func) == f'{dists}.argmin' and not iv.args and not iv.keywords))
     rep.add(rule, fi.site(first), 'the closest match is the FIRST minimum of the distance row (np.argmin)', argmin, expected=f'np.argmin({dists})', found=u(iv), stmt='closest index')
     if mt is not None and mt is not Ellipsis:
-        okm = isinstance(mt, ast.Call) and m.resolve_call(fi, mt) == f'{CL}.matching_taxon' and [u(a) for a in mt.args] == [f'{u(g)}.taxon', u(d)]
-        rep.add(rule, fi.site(first), "the closest match's taxon is decided from its own genome's taxon and its own distance", okm, expected=f'matching_taxon({u(g)}.taxon, {u(d)})', found=u(mt),
+        mtr = strip_copies(res.deep(mt, st))
+        rep.require(not res.unknown, f'classify: locals whose value cannot be traced to one expression feed the matched taxon: {sorted(set(res.unknown))}')
+        okm = isinstance(mtr, ast.Call) and m.resolve_call(fi, mtr) == f'{CL}.matching_taxon' and [u(a) for a in mtr.args] == [f'{u(g)}.taxon', u(d)] and not mtr.keywords
+        rep.add(rule, fi.site(first), "the closest match's taxon is decided from its own genome's taxon and its own distance", okm, expected=f'matching_taxon({u(g)}.taxon, {u(d)})', found=u(mtr),
                 stmt='closest matched taxon')
     # every classifier result reports exactly that match as its closest match, and nothing rewrites it afterwards
     gm_h = guard_map(fn)
@@ -114,45 +889,264 @@ def classify_head(ctx, rule='D3'):
         s_ = next((x for x in stmts_in(fn.body) if any(y is node for y in ast.walk(x)) and not isinstance(x, (ast.If, ast.For, ast.While, ast.With, ast.Try))), None)
         return rule != 'D3' or s_ is None or ('true', 'strict') not in path_atoms(gm_h[s_])
     results = [c for c in calls_in(fn) if m.resolve_call(fi, c) == f'{CL}.ClassifierResult' and in_scope(c)]
-    bad = [c for c in results if u(get_arg(c, 3, 'closest_match')) != cm]
+
+    def closest_arg(c):
+        a = get_arg(c, 3, 'closest_match')
+        if a in (None, Ellipsis):
+            return None
+        return u(res.top(a, stmt_of(fn, c))[0])
+    bad = [c for c in results if closest_arg(c) != cm]
     rep.add(rule, fi.site(bad[0] if bad else first), 'every classifier result (default and strict mode) reports the argmin match as its closest match', bool(results) and not bad,
-            expected=f'closest_match={cm}', found=[u(get_arg(c, 3, 'closest_match')) for c in results], stmt='closest match in results')
+            expected=f'closest_match={cm}', found=[closest_arg(c) for c in results], stmt='closest match in results')
     rewrites = [s for s in stmts_in(fn.body) if isinstance(s, (ast.Assign, ast.AugAssign)) and any(
         isinstance(t, ast.Attribute) and t.attr in ('closest_match', 'next_taxon') for t in (s.targets if isinstance(s, ast.Assign) else [s.target]))]
-    rewrites += [s for s in stmts_in(fn.body) if isinstance(s, ast.Assign) and any(isinstance(t, ast.Name) and t.id == cm for t in s.targets) and s is not st]
+    rewrites += [s for s in stmts_in(fn.body) if s is not st and binds(s, cm)]
     rewrites = [s for s in rewrites if in_scope(s)]
     rep.add(rule, fi.site(rewrites[0] if rewrites else first), 'the closest match (and the next taxon derived from it) is never replaced after it was determined', not rewrites, expected='no store to .closest_match / .next_taxon',
-            found=[u(s) for s in rewrites], stmt='closest match rewritten')
+            found=[u(s)[:80] for s in rewrites], stmt='closest match rewritten')
     return fi, cm, st
+
+
+class _Subst(ast.NodeTransformer):
+    def __init__(self, env, bound):
+        self.env = env
+        self.bound = bound
+
+    def visit_Name(self, node):
+        if isinstance(node.ctx, ast.Load) and node.id in self.env and node.id not in self.bound:
+            return copy.deepcopy(self.env[node.id])
+        return node
+
+
+class _PathState:
+    def __init__(self):
+        self.env, self.objs, self.rebound, self.stores, self.opaque = {}, {}, [], [], set()
+
+    def fork(self):
+        o = _PathState()
+        o.env, o.objs, o.rebound, o.stores, o.opaque = dict(self.env), dict(self.objs), list(self.rebound), list(self.stores), set(self.opaque)
+        return o
+
+
+def nonstrict_paths(ctx, fi, keep, on_return, max_paths=8):
+    """Symbolic walk of classify() along the path(s) taken when `strict` is false.  Locals are replaced by their values as the
+    walk goes (exact on a single path); names bound to constructed objects (keep(value)) stay names.  A test the walk cannot
+    decide forks the path, the test (with its outcome) becoming a fact of each side.  on_return(return stmt, returned expression,
+    state, facts) is called for every return reached; what the walk cannot follow is reported as undecided after the other paths
+    have been looked at (so a violation found on one path stands)."""
+    fn = fi.node
+    rep = ctx.rep
+    rep.require('strict' in fi.params(), 'classify: no parameter named strict')
+    undecided = []
+    count = [0]
+
+    def sub(S, e):
+        return simp(_Subst(S.env, _bound_names(e)).visit(copy.deepcopy(e)))
+
+    def simp(e):
+        """conditional expressions whose test is decided under strict = False collapse to the arm taken"""
+        class Fold(ast.NodeTransformer):
+            def visit_IfExp(self, node):
+                self.generic_visit(node)
+                v = tv(node.test)
+                return node if v is None else (node.body if v else node.orelse)
+        return Fold().visit(e)
+
+    def tv(t):
+        """three-valued truth of an already substituted test under strict = False"""
+        if isinstance(t, ast.Name) and t.id == 'strict':
+            return False
+        if isinstance(t, ast.Constant):
+            return bool(t.value)
+        if isinstance(t, (ast.Dict, ast.List, ast.Tuple, ast.Set)):
+            return bool(t.keys if isinstance(t, ast.Dict) else t.elts)
+        if isinstance(t, ast.Call) and u(t.func) in ('dict', 'list', 'set', 'tuple') and not t.args and not t.keywords:
+            return False
+        if isinstance(t, ast.UnaryOp) and isinstance(t.op, ast.Not):
+            v = tv(t.operand)
+            return None if v is None else not v
+        if isinstance(t, ast.BoolOp):
+            vs = [tv(x) for x in t.values]
+            if isinstance(t.op, ast.And):
+                return False if False in vs else (True if all(v is True for v in vs) else None)
+            return True if True in vs else (False if all(v is False for v in vs) else None)
+        if isinstance(t, ast.Compare) and len(t.ops) == 1 and isinstance(t.ops[0], (ast.Is, ast.IsNot)) and is_none(t.comparators[0]) and isinstance(t.left, ast.Constant):
+            return (t.left.value is None) == isinstance(t.ops[0], ast.Is)
+        if isinstance(t, ast.Compare) and len(t.ops) == 1 and isinstance(t.ops[0], (ast.Eq, ast.NotEq, ast.Is, ast.IsNot)) and isinstance(t.left, ast.Name) and t.left.id == 'strict' \
+                and isinstance(t.comparators[0], ast.Constant) and isinstance(t.comparators[0].value, bool):
+            return (t.comparators[0].value is False) == isinstance(t.ops[0], (ast.Eq, ast.Is))
+        return None
+
+    def bind(S, name, value, stmt):
+        if name == 'strict':
+            raise Undecided('classify: the strict parameter is rebound')
+        v = sub(S, value)
+        if name in S.objs or name in S.opaque:
+            S.rebound.append((name, stmt))
+        if keep(value):
+            S.objs[name] = v
+            S.env.pop(name, None)
+        else:
+            S.objs.pop(name, None)
+            S.env[name] = v
+
+    def single_assign(block):
+        if len(block) == 1 and isinstance(block[0], ast.Assign) and len(block[0].targets) == 1 and isinstance(block[0].targets[0], ast.Name):
+            return block[0].targets[0].id, block[0].value
+        return None
+
+    def branch(stmts, cont, S, facts):
+        try:
+            walk(stmts, cont, S, facts)
+        except Undecided as e:
+            undecided.append(str(e))
+
+    def walk(stmts, cont, S, facts):
+        for idx, s in enumerate(stmts):
+            rest = (stmts[idx + 1:],) + cont
+            if isinstance(s, ast.Expr) and isinstance(s.value, ast.Constant):
+                continue
+            if isinstance(s, ast.If):
+                t = sub(S, s.test)
+                v = tv(t)
+                if v is None:
+                    a, b = single_assign(s.body), single_assign(s.orelse)
+                    if a and b and a[0] == b[0] and not keep(a[1]) and not keep(b[1]):
+                        # if c: x = A else: x = B  is  x = A if c else B
+                        bind(S, a[0], ast.IfExp(test=s.test, body=a[1], orelse=b[1]), s)
+                        continue
+                    count[0] += 1
+                    if count[0] > max_paths:
+                        raise Undecided(f'classify: too many undecided tests on the default (non-strict) path (at: if {u(t)[:60]})')
+                    branch(s.body, rest, S.fork(), facts + [(t, True)])
+                    branch(s.orelse, rest, S.fork(), facts + [(t, False)])
+                    return
+                walk(s.body if v else s.orelse, rest, S, facts)
+                return
+            if isinstance(s, ast.Return):
+                rep.require(s.value is not None, 'classify: bare return on the non-strict path')
+                on_return(s, sub(S, s.value), S, facts)
+                return
+            if isinstance(s, (ast.Assign, ast.AnnAssign)):
+                targets = s.targets if isinstance(s, ast.Assign) else [s.target]
+                if s.value is None:
+                    continue
+                for t in targets:
+                    if isinstance(t, ast.Name):
+                        bind(S, t.id, s.value, s)
+                    elif isinstance(t, (ast.Tuple, ast.List)) and all(isinstance(x, ast.Name) for x in t.elts):
+                        if isinstance(s.value, (ast.Tuple, ast.List)) and len(s.value.elts) == len(t.elts):
+                            vals = [sub(S, x) for x in s.value.elts]
+                            for x, v in zip(t.elts, vals):
+                                S.objs.pop(x.id, None)
+                                S.env[x.id] = v
+                        else:
+                            for x in t.elts:
+                                if x.id in S.objs or x.id in S.opaque or x.id in S.env:
+                                    S.rebound.append((x.id, s))
+                                S.opaque.add(x.id)
+                                S.env.pop(x.id, None)
+                    elif isinstance(t, (ast.Attribute, ast.Subscript)):
+                        S.stores.append((sub(S, t), s))
+                    else:
+                        raise Undecided(f'classify: assignment form on the non-strict path: {u(s)[:80]}')
+                continue
+            if isinstance(s, (ast.Assert, ast.Pass)):
+                continue
+            if isinstance(s, ast.Expr) and isinstance(s.value, ast.Call):
+                S.stores.append((sub(S, s.value), s))
+                continue
+            raise Undecided(f'classify: statement on the default (non-strict) path outside the vocabulary: {u(s)[:80]}')
+        if cont:
+            walk(cont[0], cont[1:], S, facts)
+            return
+        raise Undecided('classify: the default (non-strict) path can fall off the end of the function without returning a classifier result')
+
+    branch(fn.body, (), _PathState(), [])
+    return undecided
+
+
+def _single_return_value(f):
+    """(value, statement) of the only return of a small function, through locals; None when it has another shape."""
+    rets = [s for s in stmts_in(f.node.body) if isinstance(s, ast.Return)]
+    if len(rets) != 1 or rets[0].value is None or any(isinstance(s, (ast.For, ast.While, ast.Try, ast.With)) for s in stmts_in(f.node.body)):
+        return None, None
+    res = Resolver(f.node)
+    v = res.deep(rets[0].value, rets[0])
+    if res.unknown:
+        return None, None
+    return v, rets[0]
+
+
+def matched_taxon_default_ok(m):
+    """GenomeMatch.matched_taxon defaults to matching_taxon(self.genome.taxon, self.distance) -> (ok, FuncInfo|None, found text)."""
+    gc = m.cls(f'{CL}.GenomeMatch')
+    f3 = gc.methods.get('_matched_taxon_default')
+    if f3 is None:
+        return False, None, 'no default'
+    v, _ = _single_return_value(f3)
+    ok = any(u(dec) == 'matched_taxon.default' for dec in f3.decorators) and isinstance(v, ast.Call) and m.resolve_call(f3, v) == f'{CL}.matching_taxon' \
+        and [u(a) for a in v.args] == ['self.genome.taxon', 'self.distance'] and not v.keywords
+    return ok, f3, u(v) if v is not None else [u(s) for s in f3.node.body]
 
 
 def check_classify(ctx):
     rep, m = ctx.rep, ctx.model
     fi, cm, st = classify_head(ctx)
     fn = fi.node
-    gm = guard_map(fn)
-    results = [c for c in calls_in(fn) if m.resolve_call(fi, c) == f'{CL}.ClassifierResult']
-    ns = []
-    for c in results:
-        rs = next((s for s in stmts_in(fn.body) if isinstance(s, ast.Return) and s.value is c), None)
-        if rs is not None and ('false', 'strict') in path_atoms(gm[rs]):
-            ns.append((c, rs))
-    rep.floor('D3', 'non-strict result constructions', len(ns), 1)
-    c, rs = ns[0]
-    kw = {k.arg: k.value for k in c.keywords}
-    rep.add('D3', fi.site(c), 'prediction = taxon matched by the closest genome alone', u(kw.get('predicted_taxon')) == f'{cm}.matched_taxon', expected=f'{cm}.matched_taxon',
-            found=u(kw.get('predicted_taxon')), stmt='predicted taxon')
-    pmv = kw.get('primary_match')
-    okp = isinstance(pmv, ast.IfExp) and u(pmv.body) == cm and is_none(pmv.orelse) and atoms(pmv.test) == {('isnot', 'None', f'{cm}.matched_taxon')}
-    okp = okp or (isinstance(pmv, ast.IfExp) and is_none(pmv.body) and u(pmv.orelse) == cm and atoms(pmv.test) == {('is', 'None', f'{cm}.matched_taxon')})
-    rep.add('D3', fi.site(c), 'primary match is the closest match exactly when a prediction is made', okp, expected=f'{cm} if {cm}.matched_taxon is not None else None', found=u(pmv),
-            stmt='primary match')
-    rep.add('D3', fi.site(c), 'the reported closest match is the argmin match; the run is flagged successful', u(kw.get('closest_match')) == cm and is_const(kw.get('success'), True),
-            expected=f'closest_match={cm}, success=True', found=(u(kw.get('closest_match')), u(kw.get('success'))), stmt='closest / success')
-    rep.add('D3', fi.site(c), 'next taxon is left to the default (derived from the closest match)', 'next_taxon' not in kw and len(c.args) == 0, expected='default', found=sorted(kw), stmt='next default')
-    # the non-strict return happens before any strict-mode processing can alter closest_match
-    between = [s for s in fn.body if st.lineno < s.lineno < rs.lineno and isinstance(s, ast.Assign) and any(u(t) == cm for t in s.targets)]
-    rep.add('D3', fi.site(rs), 'closest match is not rebound before the non-strict return', not between, expected='none', found=[u(b) for b in between], stmt='closest rebinding')
+    fields = ['success', 'predicted_taxon', 'primary_match', 'closest_match', 'next_taxon']
+
+    def keep(v):
+        return isinstance(v, ast.Call) and m.resolve_call(fi, v) in (f'{CL}.GenomeMatch', f'{CL}.ClassifierResult')
+    seen = []
+
+    def on_return(rs, val, S, facts):
+        seen.append(rs)
+        if isinstance(val, ast.Name) and val.id in S.objs:
+            touched = [s for (t, s) in S.stores if isinstance(t, ast.Attribute) and u(t.value) == val.id and t.attr not in ('closest_match', 'next_taxon')]
+            rep.require(not touched, f'classify: the default (non-strict) result is modified after its construction: {u(touched[0]) if touched else ""}')
+            val = S.objs[val.id]
+        rep.require(isinstance(val, ast.Call) and m.resolve_call(fi, val) == f'{CL}.ClassifierResult', f'classify: the default (non-strict) path returns something that is not a ClassifierResult construction: {u(val)[:80]}')
+        rep.require(cm in S.objs and not any(isinstance(a, ast.Starred) for a in val.args) and not any(k.arg is None for k in val.keywords), 'classify: closest match is not constructed on the default path / star-arguments')
+        c = val
+        kw = {k.arg: k.value for k in c.keywords}
+        kw.update({fields[i]: a for i, a in enumerate(c.args[:len(fields)])})
+        # what may stand for "the taxon matched by the closest genome alone": the attribute of the closest match, or the very expression passed as its matched_taxon
+        pred_ok = {f'{cm}.matched_taxon'}
+        mt = get_arg(S.objs[cm], 2, 'matched_taxon')
+        if mt not in (None, Ellipsis) and isinstance(mt, ast.Call) and m.resolve_call(fi, mt) == f'{CL}.matching_taxon':
+            pred_ok.add(u(mt))
+        known = path_atoms(facts)
+        none_here = any(('is', 'None', p) in known for p in pred_ok)          # on this path nothing was matched
+        some_here = any(('isnot', 'None', p) in known for p in pred_ok)       # on this path something was matched
+        if any((k, p) in known for k in ('true', 'false') for p in pred_ok):
+            raise Undecided('classify: the default path is split on the truth value of a taxon object (not an `is None` test)')
+        pv = kw.get('predicted_taxon')
+        rep.add('D3', fi.site(rs), 'prediction = taxon matched by the closest genome alone', u(pv) in pred_ok or (none_here and is_none(pv)), expected=f'{cm}.matched_taxon',
+                found=u(pv), stmt='predicted taxon')
+        pmv = kw.get('primary_match')
+        okp = False
+        if isinstance(pmv, ast.IfExp):
+            at = atoms(pmv.test)
+            if at is not None and len(at) == 1 and next(iter(at))[0] in ('true', 'false') and next(iter(at))[1] in pred_ok:
+                raise Undecided(f'classify: primary match decided by the truth value of a taxon object (not an `is None` test): {u(pmv)}')
+            okp = (u(pmv.body) == cm and is_none(pmv.orelse) and any(at == {('isnot', 'None', p)} for p in pred_ok)) \
+                or (is_none(pmv.body) and u(pmv.orelse) == cm and any(at == {('is', 'None', p)} for p in pred_ok))
+        okp = okp or (none_here and is_none(pmv)) or (some_here and u(pmv) == cm)
+        rep.add('D3', fi.site(rs), 'primary match is the closest match exactly when a prediction is made', okp, expected=f'{cm} if {cm}.matched_taxon is not None else None', found=u(pmv),
+                stmt='primary match')
+        rep.add('D3', fi.site(rs), 'the reported closest match is the argmin match; the run is flagged successful', u(kw.get('closest_match')) == cm and is_const(kw.get('success'), True),
+                expected=f'closest_match={cm}, success=True', found=(u(kw.get('closest_match')), u(kw.get('success'))), stmt='closest / success')
+        rep.add('D3', fi.site(rs), 'next taxon is left to the default (derived from the closest match)', 'next_taxon' not in kw, expected='default', found=sorted(kw), stmt='next default')
+        # the non-strict return happens before anything can alter closest_match
+        between = [s for (n, s) in S.rebound if n == cm]
+        rep.add('D3', fi.site(rs), 'closest match is not rebound before the non-strict return', not between, expected='none', found=[u(b)[:80] for b in between], stmt='closest rebinding')
+
+    undecided = nonstrict_paths(ctx, fi, keep, on_return)
+    if undecided:
+        raise Undecided(undecided[0])
+    rep.require(seen, 'classify: no return reached on the default (non-strict) path')
+    results = [c2 for c2 in calls_in(fn) if m.resolve_call(fi, c2) == f'{CL}.ClassifierResult']
     crets = [s for s in stmts_in(fn.body) if isinstance(s, ast.Return) and (any(x in results for x in ast.walk(s)) or isinstance(s.value, ast.Name))]
     rep.account_returns('D3', fi, crets, 'classification result')
     d = fi.param_default('strict')
@@ -160,176 +1154,40 @@ def check_classify(ctx):
     # attrs defaults
     cr = m.cls(f'{CL}.ClassifierResult')
     f2 = cr.methods.get('_next_taxon_default')
-    okd = f2 is not None and any(u(dec) == 'next_taxon.default' for dec in f2.decorators)
-    body = [s for s in f2.node.body if not (isinstance(s, ast.Expr) and isinstance(s.value, ast.Constant))] if f2 else []
-    okd = okd and len(body) == 1 and isinstance(body[0], ast.Return) and u(body[0].value) == 'self.closest_match.next_taxon()'
-    rep.add('D3', f2.site() if f2 else cr.site(), "ClassifierResult.next_taxon defaults to the closest match's next taxon", okd, expected='self.closest_match.next_taxon()', found=[u(s) for s in body],
-            stmt='next_taxon default')
+    v2, _ = _single_return_value(f2) if f2 else (None, None)
+    okd = f2 is not None and any(u(dec) == 'next_taxon.default' for dec in f2.decorators) and u(v2) == 'self.closest_match.next_taxon()'
+    rep.add('D3', f2.site() if f2 else cr.site(), "ClassifierResult.next_taxon defaults to the closest match's next taxon", okd, expected='self.closest_match.next_taxon()',
+            found=u(v2) if v2 is not None else ([u(s) for s in f2.node.body] if f2 else None), stmt='next_taxon default')
     gc = m.cls(f'{CL}.GenomeMatch')
-    f3 = gc.methods.get('_matched_taxon_default')
-    body = [s for s in f3.node.body if not (isinstance(s, ast.Expr) and isinstance(s.value, ast.Constant))] if f3 else []
-    okg = f3 is not None and any(u(dec) == 'matched_taxon.default' for dec in f3.decorators) and len(body) == 1 and isinstance(body[0], ast.Return) \
-        and isinstance(body[0].value, ast.Call) and m.resolve_call(f3, body[0].value) == f'{CL}.matching_taxon' \
-        and [u(a) for a in body[0].value.args] == ['self.genome.taxon', 'self.distance']
+    okg, f3, found = matched_taxon_default_ok(m)
     rep.add('D3', f3.site() if f3 else gc.site(), 'a match built without a taxon derives it from its own genome and distance', okg, expected='matching_taxon(self.genome.taxon, self.distance)',
-            found=[u(s) for s in body], stmt='matched_taxon default')
+            found=found, stmt='matched_taxon default')
     order = [k for k in gc.annotations]
     rep.add('D3', gc.site(), 'GenomeMatch positional field order is (genome, distance, matched_taxon)', order[:3] == ['genome', 'distance', 'matched_taxon'], expected=['genome', 'distance', 'matched_taxon'],
             found=order, stmt='GenomeMatch fields')
+    order2 = [k for k in cr.annotations]
+    rep.add('D3', cr.site(), 'ClassifierResult positional field order is (success, predicted_taxon, primary_match, closest_match, next_taxon)', order2[:5] == fields, expected=fields,
+            found=order2, stmt='ClassifierResult fields')
 
 
 # ------------------------------------------------------------------------------------------------ D4
-def _facts(test, pol):
-    """(var, fact) refinements implied by test == pol; fact in nonnull|null|thr|nothr."""
-    if isinstance(test, ast.BoolOp):
-        if isinstance(test.op, ast.And) and pol:
-            for v in test.values:
-                yield from _facts(v, True)
-        elif isinstance(test.op, ast.Or) and not pol:
-            for v in test.values:
-                yield from _facts(v, False)
-        return
-    if isinstance(test, ast.UnaryOp) and isinstance(test.op, ast.Not):
-        yield from _facts(test.operand, not pol)
-        return
-    if isinstance(test, ast.Compare) and len(test.ops) == 1 and is_none(test.comparators[0]) and isinstance(test.ops[0], (ast.Is, ast.IsNot)):
-        nonnull = (isinstance(test.ops[0], ast.IsNot) == pol)
-        left = test.left
-        if isinstance(left, ast.Name):
-            yield (left.id, 'nonnull' if nonnull else 'null')
-        elif isinstance(left, ast.Attribute) and left.attr == 'distance_threshold' and isinstance(left.value, ast.Name):
-            yield (left.value.id, 'thr' if nonnull else 'nothr')
-
-
-def _apply(st, var, f):
-    cur = st.get(var, TOP)
-    if f == 'nonnull':
-        cur = cur - {NONE}
-    elif f == 'null':
-        cur = cur & {NONE}
-    elif f == 'thr':
-        cur = frozenset(CHK if x == UNCHK else x for x in cur) - {NONE}
-    elif f == 'nothr':
-        cur = cur - {CHK}
-    st[var] = cur
-
-
-def _freeze(st):
-    return tuple(sorted(st.items()))
-
-
-def check_next_taxon(ctx, d1_atoms):
-    rep, m = ctx.rep, ctx.model
+def check_next_taxon(ctx):
+    m = ctx.model
     fi = m.func(f'{CL}.GenomeMatch.next_taxon')
-    rep.functions.add(fi.qualname)
-    cfg = CFG(fi.node)
+    ctx.rep.functions.add(fi.qualname)
 
-    def val(expr, st):
-        if is_none(expr):
-            return frozenset([NONE])
-        if isinstance(expr, ast.Name):
-            return st.get(expr.id, TOP)
-        if isinstance(expr, ast.Attribute) and expr.attr == 'parent':
-            return TOP
-        if isinstance(expr, ast.Attribute) and u(expr) in ('self.genome.taxon',):
-            return frozenset([UNCHK])
-        if isinstance(expr, ast.IfExp):
-            return val(expr.body, st) | val(expr.orelse, st)
-        raise Undecided(f'next_taxon: taxon-valued expression outside the vocabulary: {u(expr)}')
+    def match(t, d):
+        g = Obj('AnnotatedGenome', 'genome', taxon=t)
+        return Obj('GenomeMatch', f'match(d={d})', genome=g, distance=d, matched_taxon=spec_matching(t, d) if t is not None else None)
 
-    def transfer(n, state):
-        st = dict(state)
-        s = n.stmt
-        if n.kind == 'stmt' and isinstance(s, ast.Assign):
-            if len(s.targets) == 1 and isinstance(s.targets[0], ast.Name):
-                st[s.targets[0].id] = val(s.value, st)
-            else:
-                raise Undecided(f'next_taxon: assignment form {u(s)}')
-        elif n.kind == 'stmt' and isinstance(s, (ast.AugAssign, ast.AnnAssign)):
-            raise Undecided(f'next_taxon: statement {u(s)}')
-        return _freeze(st)
-
-    def refine(n, lab, state):
-        st = dict(state)
-        if n.kind == 'for':
-            it = n.stmt.iter
-            if isinstance(it, ast.Call) and callee_attr(it) == 'ancestors' and isinstance(n.stmt.target, ast.Name):
-                if lab is True:
-                    st[n.stmt.target.id] = frozenset([UNCHK])     # some taxon of the lineage, threshold unknown
-                return _freeze(st)
-            raise Undecided('next_taxon: for loop over something other than an ancestors() walk')
-        test = n.stmt
-        if isinstance(test, ast.BoolOp) and isinstance(test.op, ast.And) and lab is False and len(test.values) >= 2:
-            # not (A and B ...) : join over "first k true, k+1 false"
-            acc = None
-            pre = dict(st)
-            feasible_pre = True
-            for v in test.values:
-                if not feasible_pre:
-                    break
-                branch = dict(pre)
-                for (var, f) in _facts(v, False):
-                    _apply(branch, var, f)
-                if not any(len(x) == 0 for x in branch.values()):
-                    acc = branch if acc is None else {k: acc.get(k, frozenset()) | branch.get(k, frozenset()) for k in set(acc) | set(branch)}
-                for (var, f) in _facts(v, True):
-                    _apply(pre, var, f)
-                if any(len(x) == 0 for x in pre.values()):
-                    feasible_pre = False
-            if acc is None:
-                return None
-            return _freeze(acc)
-        for (var, f) in _facts(test, lab):
-            _apply(st, var, f)
-        if any(len(v) == 0 for v in st.values()):
-            return None
-        return _freeze(st)
-
-    def join(a, b):
-        da, db = dict(a), dict(b)
-        return _freeze({k: da.get(k, frozenset()) | db.get(k, frozenset()) for k in set(da) | set(db)})
-
-    IN = solve(cfg, tuple(), transfer, refine, join)
-    rets = [n for n in cfg.nodes if n.kind == 'return' and n.id in IN]
-    rep.floor('D4', 'reachable returns in next_taxon', len(rets), 1)
-    for n in rets:
-        st = dict(IN[n.id])
-        v = val(n.stmt.value, st) if n.stmt.value is not None else frozenset([NONE])
-        rep.add('D4', fi.site(n.stmt), 'every taxon that can be returned as "next" has passed a threshold-present test on every path (or is None)', UNCHK not in v,
-                expected='{checked, None}', found=sorted(v), stmt=n.stmt, construct=f'{fi.qualname}')
-    # implicit fall-off-the-end returns None: fine.
-    # stop test has the same normal form as D1 (d := self.distance, t := the walked taxon)
-    gm = guard_map(fi.node)
-    inner = [s for s in stmts_in(fi.node.body) if isinstance(s, ast.Return) and len(block_path(fi.node, s)) > 1]
-    walk_loops = [s for s in stmts_in(fi.node.body) if isinstance(s, (ast.While, ast.For))]
-    rep.require(walk_loops, 'next_taxon: no lineage walk found')
-    stops = list(inner) + [s for s in stmts_in(fi.node.body) if isinstance(s, ast.Break)]
-    stops = [s for s in stops if any(a[0] in ('le', 'lt') and 'self.distance' in a[1:] for a in path_atoms(gm[s]))]
-    rep.add('D4', fi.site(walk_loops[0]), 'the walk stops at the first (most specific) taxon whose threshold covers the distance, so "next" is the nearest threshold-bearing taxon BELOW the prediction',
-            bool(stops), expected='return/break inside the walk under distance <= threshold', found='the walk never stops at the predicted taxon (it reports the topmost exceeded threshold; wrong when thresholds are not monotone)' if not stops else 'ok',
-            stmt='walk stop')
-    for r in inner:
-        at = path_atoms(gm[r])
-        le = [a for a in at if a[0] in ('le', 'lt')]
-        ok = len(le) == 1 and le[0][0] == 'le' and le[0][1] == 'self.distance' and le[0][2].endswith('.distance_threshold')
-        rep.add('D4', fi.site(r), 'the walk stops at a taxon under the same test as the prediction (distance <= threshold, equality included)', ok,
-                expected='self.distance <= <taxon>.distance_threshold', found=sorted(at), stmt='stop test')
-        if ok:
-            walked = le[0][2].rsplit('.', 1)[0]
-            # what is returned there is the previously remembered taxon, not the one that met its threshold
-            rep.add('D4', fi.site(r), 'at the stop the previously remembered (more specific) taxon is returned, not the one that met its threshold',
-                    isinstance(r.value, ast.Name) and r.value.id != walked, expected='the remembered taxon', found=u(r.value), stmt='stop value')
-            # the remembered taxon is updated from the walked one after a failed test, in the same loop
-            lo = r.value.id if isinstance(r.value, ast.Name) else None
-            upd = [s for s in stmts_in(fi.node.body) if isinstance(s, ast.Assign) and u(s.targets[0]) == lo and u(s.value) == walked]
-            okk = False
-            for s in upd:
-                bp_s, bp_r = block_path(fi.node, s), block_path(fi.node, r)
-                loops_s = [o for (_, _, o) in bp_s if isinstance(o, ast.While)]
-                loops_r = [o for (_, _, o) in bp_r if isinstance(o, ast.While)]
-                okk = okk or (bool(loops_s) and loops_s[-1] in loops_r and s.lineno > r.lineno)
-            rep.add('D4', fi.site(upd[0] if upd else r), 'a taxon whose threshold was exceeded is remembered before the walk moves up', okk, expected=f'{lo} = {walked} after the failed test',
-                    found=[u(s) for s in upd], stmt='remember step')
+    def cases():
+        for thrs, d in threshold_domain():
+            nodes = chain(thrs)
+            yield f'lineage thresholds (genome taxon first) {list(thrs)}, distance {d}', [match(nodes[0], d)], {}, spec_next(nodes[0], d)
+    decide_by_evaluation(ctx, 'D4', fi, cases(), 'next_taxon walks up the lineage of the genome, ignores taxa without a threshold, stops at the first (most specific) taxon whose threshold covers the '
+                         'distance (equality included) and returns the nearest threshold-bearing taxon BELOW it (None when the prediction is the first threshold-bearing taxon; the topmost '
+                         'threshold-bearing taxon when nothing is predicted)', 'the last threshold-bearing taxon before the first one with distance <= threshold', 'next taxon',
+                         extra_runs=[([match(None, 1.0)], {})])
 
 
 # ------------------------------------------------------------------------------------------------ D5 / D6
@@ -337,49 +1195,38 @@ def check_reportable(ctx):
     rep, m = ctx.rep, ctx.model
     fi = m.func('gambit.db.models.reportable_taxon')
     rep.functions.add(fi.qualname)
-    tp = fi.params()[0]
-    gm = guard_map(fi.node)
-    fors = [s for s in fi.node.body if isinstance(s, ast.For)]
-    rep.require(len(fors) == 1 and isinstance(fors[0].target, ast.Name), 'reportable_taxon: expected one for loop')
-    loop = fors[0]
-    t = loop.target.id
-    it = loop.iter
-    inc = get_arg(it, 0, 'incself') if isinstance(it, ast.Call) else None
-    ok = isinstance(it, ast.Call) and callee_attr(it) == 'ancestors' and u(it.func.value) == tp and inc not in (None, Ellipsis) and is_const(inc, True)
-    rep.add('D5', fi.site(loop), 'the walk starts at the predicted taxon itself', ok, expected=f'{tp}.ancestors(incself=True)', found=u(it), stmt='report walk')
-    rets = [s for s in stmts_in(loop.body) if isinstance(s, ast.Return)]
-    rep.floor('D5', 'returns in the report walk', len(rets), 1)
-    for r in rets:
-        at = path_atoms(gm[r]) - {('isnot', 'None', tp)}
-        rep.add('D5', fi.site(r), 'the first taxon flagged reportable is returned', at == {('true', f'{t}.report')} and u(r.value) == t, expected=f'return {t} under {t}.report',
-                found=(u(r.value), sorted(at)), stmt='report test')
-    at_loop = path_atoms(gm[loop])
-    rep.add('D5', fi.site(loop), 'None passes through', ('isnot', 'None', tp) in at_loop, expected=f'{tp} is not None before the walk', found=sorted(at_loop), stmt='None passthrough')
-    last = fi.node.body[-1]
-    none_pass = [s for s in stmts_in(fi.node.body) if isinstance(s, ast.Return) and path_atoms(gm[s]) == {('is', 'None', tp)} and is_none(s.value)]
-    rep.account_returns('D5', fi, rets + none_pass + ([last] if isinstance(last, ast.Return) else []), 'reported taxon')
-    rep.add('D5', fi.site(last), 'nothing reportable in the lineage gives None', isinstance(last, ast.Return) and is_none(last.value), expected='return None', found=u(last), stmt='no reportable')
+    rep.require(len(fi.params()) >= 1, 'reportable_taxon: expected a taxon parameter')
+
+    def cases():
+        yield 'no predicted taxon (None)', [None], {}, None
+        for reports in report_domain():
+            nodes = chain([None] * len(reports), reports)
+            yield f'lineage report flags (predicted taxon first) {list(reports)}', [nodes[0]], {}, spec_reportable(nodes[0])
+    decide_by_evaluation(ctx, 'D5', fi, cases(), 'reportable_taxon passes None through and otherwise returns the first taxon at or above the given one that is flagged reportable (None when there is none)',
+                         'None -> None; first t in taxon.ancestors(incself=True) with t.report, else None', 'reported taxon')
     # D6
     fg = m.func('gambit.query.get_result_item')
     rep.functions.add(fg.qualname)
     items = [c for c in calls_in(fg.node) if m.resolve_call(fg, c) == 'gambit.query.QueryResultItem']
     rep.require(len(items) == 1, 'get_result_item: expected one QueryResultItem construction')
+    st = stmt_of(fg.node, items[0])
+    res = Resolver(fg.node, keep=lambda v: isinstance(v, ast.Call) and m.resolve_call(fg, v) == f'{CL}.classify')
     kw = {k.arg: k.value for k in items[0].keywords}
     cr = kw.get('classifier_result')
-    crv = None
-    if isinstance(cr, ast.Name):
-        d = reaching_def(fg.node, cr.id, next(s for s in fg.node.body if any(x is items[0] for x in ast.walk(s))))
-        crv = def_value(d) if d not in (None, PARAM, AMBIGUOUS) else None
+    crv = res.top(cr, st, through_kept=True)[0] if cr is not None else None
     okc = isinstance(crv, ast.Call) and m.resolve_call(fg, crv) == f'{CL}.classify'
     rep.add('D6', fg.site(items[0]), 'the stored classifier result is the classify() outcome for this row', okc, expected='classify(db.genomes, dists, ...)', found=u(crv), stmt='classifier result')
     rep.account_returns('D6', fg, [s for s in stmts_in(fg.node.body) if isinstance(s, ast.Return) and s.value is items[0]], 'result item')
-    rt = kw.get('report_taxon')
-    okr = isinstance(rt, ast.Call) and m.resolve_call(fg, rt) == 'gambit.db.models.reportable_taxon' and [u(a) for a in rt.args] == [f'{u(cr)}.predicted_taxon']
-    rep.add('D6', fg.site(items[0]), 'the user-facing taxon is the reportable ancestor of the predicted taxon', okr, expected=f'reportable_taxon({u(cr)}.predicted_taxon)', found=u(rt),
+    rt = res.deep(kw.get('report_taxon'), st)
+    crn = res.deep(cr, st)
+    okr = isinstance(rt, ast.Call) and m.resolve_call(fg, rt) == 'gambit.db.models.reportable_taxon' and [u(a) for a in rt.args] == [f'{u(crn)}.predicted_taxon'] and not rt.keywords \
+        and isinstance(crn, ast.Name)
+    rep.add('D6', fg.site(items[0]), 'the user-facing taxon is the reportable ancestor of the predicted taxon', okr, expected=f'reportable_taxon({u(crn)}.predicted_taxon)', found=u(rt),
             stmt='report taxon')
     if isinstance(crv, ast.Call):
         st_kw = get_kw(crv, 'strict')
-        rep.add('D6', fg.site(crv), 'strict mode is taken from the query parameters only', u(st_kw) == f'{fg.params()[1]}.classify_strict', expected='strict=params.classify_strict', found=u(st_kw),
+        st_r = res.text(st_kw, stmt_of(fg.node, crv)) if st_kw is not None else None
+        rep.add('D6', fg.site(crv), 'strict mode is taken from the query parameters only', st_r == f'{fg.params()[1]}.classify_strict', expected='strict=params.classify_strict', found=st_r,
                 stmt='strict wiring')
     qp = m.cls('gambit.query.QueryParams')
     dflt = qp.class_attrs.get('classify_strict')
@@ -389,18 +1236,20 @@ def check_reportable(ctx):
 
 def check(ctx):
     rep = ctx.rep
-    rep.rule('D1', 'matching_taxon: guard conjunct set {t.distance_threshold is not None, d <= t.distance_threshold}, walk ancestors(incself=True), first hit returned')
-    rep.rule('D2', 'Taxon.ancestors: self-or-parent start, yield, step to parent until None')
-    rep.rule('D3', 'non-strict classify: argmin, same-index pairing, result fields, attrs defaults')
-    rep.rule('D4', 'next_taxon: forward abstract interpretation over the CFG; every returned taxon is threshold-checked or None; stop test == D1 normal form')
-    rep.rule('D5', 'reportable_taxon: None passthrough, first ancestor-or-self with report')
+    rep.rule('D1', 'matching_taxon, evaluated on the finite lineage domain: first ancestor-or-self with a threshold >= d (equality, zero thresholds, missing and non-monotone thresholds)')
+    rep.rule('D2', 'Taxon.ancestors, evaluated on chains: self iff incself (default False), then every parent up to the root')
+    rep.rule('D3', 'non-strict classify: argmin, same-index pairing, fields of the result on the path taken when strict is false, attrs defaults')
+    rep.rule('D4', 'next_taxon, evaluated on the finite lineage domain: nearest threshold-bearing taxon below the first one whose threshold covers the distance; topmost threshold-bearing one when none does')
+    rep.rule('D5', 'reportable_taxon, evaluated on chains with report flags True/False/None: None passthrough, first ancestor-or-self with report')
     rep.rule('D6', 'get_result_item: classify of this row; report taxon from predicted taxon; strict only from params')
-    rep.trusted += ['np.argmin returns the first minimum']
-    rep.assumptions += ['Composition of the clauses into the full statement for every forest is a hand argument (DESIGN.md 5/C03). Monotonicity follows from D1 being downward-closed in d.']
-    d1 = check_matching_taxon(ctx)
+    rep.trusted += ['np.argmin returns the first minimum', 'model / attrs objects (Taxon, GenomeMatch) are truthy and compare by identity']
+    rep.assumptions += ['Composition of the clauses into the full statement for every forest is a hand argument (DESIGN.md 5/C03). Monotonicity follows from D1 being downward-closed in d.',
+                        'D1/D2/D4/D5 are decided on every lineage up to depth 5 (4 for report flags) with every absent/below/equal/above/zero threshold pattern; the evaluated vocabulary has no arithmetic '
+                        'and no counters, so a walk cannot behave differently on deeper lineages; every statement and both outcomes of every test must be exercised by the domain.']
+    check_matching_taxon(ctx)
     check_ancestors(ctx)
     check_classify(ctx)
-    check_next_taxon(ctx, d1)
+    check_next_taxon(ctx)
     check_reportable(ctx)
 
 
@@ -409,6 +1258,30 @@ from ..variants import V  # noqa: E402
 _C = 'src/gambit/classify.py'
 _M = 'src/gambit/db/models.py'
 _Q = 'src/gambit/query.py'
+_MT_LOOP = "\tfor t in taxon.ancestors(incself=True):\n\t\tif t.distance_threshold is not None and d <= t.distance_threshold:\n\t\t\treturn t\n\treturn None\n"
+_NT_BODY = ("\t\tlo = None\n\t\thi = self.genome.taxon\n\n\t\t# Genome's own taxon may not have a threshold, start from first in lineage that does\n"
+            "\t\twhile hi is not None and hi.distance_threshold is None:\n\t\t\thi = hi.parent\n\n\t\twhile hi is not None:\n"
+            "\t\t\tif hi.distance_threshold is not None and self.distance <= hi.distance_threshold:\n\t\t\t\treturn lo\n\n\t\t\tlo = hi\n\n"
+            "\t\t\t# Advance to next in ancestry with distance threshold\n\t\t\thi = hi.parent\n\t\t\twhile hi is not None and hi.distance_threshold is None:\n\t\t\t\thi = hi.parent\n\n\t\treturn lo\n")
+_RT_LOOP = "\tfor t in taxon.ancestors(incself=True):\n\t\tif t.report:\n\t\t\treturn t\n\n\treturn None"
+_ANC_BODY = "\t\ttaxon = self if incself else self.parent\n\t\twhile taxon is not None:\n\t\t\tyield taxon\n\t\t\ttaxon = taxon.parent\n"
+_CM_OLD = ("\tclosest = np.argmin(dists)\n\tclosest_match = GenomeMatch(\n\t\tgenome=ref_genomes[closest],\n\t\tdistance=dists[closest],\n"
+           "\t\tmatched_taxon=matching_taxon(ref_genomes[closest].taxon, dists[closest]),\n\t)\n")
+_CM_LOCALS = ("\tclosest = np.argmin(dists)\n\tclosest_genome = ref_genomes[closest]\n\tclosest_dist = dists[closest]\n\tclosest_match = GenomeMatch(\n\t\tgenome=closest_genome,\n"
+              "\t\tdistance=closest_dist,\n\t\tmatched_taxon=matching_taxon(closest_genome.taxon, closest_dist),\n\t)\n")
+_NS_OLD = ("\tif not strict:\n\t\t# Use closest match only\n\t\treturn ClassifierResult(\n\t\t\tsuccess=True,\n\t\t\tpredicted_taxon=closest_match.matched_taxon,\n"
+           "\t\t\tprimary_match=closest_match if closest_match.matched_taxon is not None else None,\n\t\t\tclosest_match=closest_match,\n\t\t)\n")
+_NS_LOCAL = ("\tif not strict:\n\t\tmatched = closest_match.matched_taxon\n\t\treturn ClassifierResult(\n\t\t\tsuccess=True,\n\t\t\tpredicted_taxon=matched,\n"
+             "\t\t\tprimary_match=None if matched is None else closest_match,\n\t\t\tclosest_match=closest_match,\n\t\t)\n")
+_NS_IFELSE = ("\tif not strict:\n\t\tmatched = closest_match.matched_taxon\n\t\tif matched is None:\n\t\t\tprimary = None\n\t\telse:\n\t\t\tprimary = closest_match\n"
+              "\t\treturn ClassifierResult(success=True, predicted_taxon=matched, primary_match=primary, closest_match=closest_match)\n")
+_NS_TO_NOMATCH = (_NS_OLD + "\n\t# Find all matches and attempt to get consensus\n\tmatches = find_matches(zip_strict(ref_genomes, dists))\n\tconsensus, others = consensus_taxon(matches.keys())\n\n"
+                  "\t# No matches found\n\tif not matches:\n\t\treturn ClassifierResult(\n\t\t\tsuccess=True,\n\t\t\tpredicted_taxon=None,\n\t\t\tprimary_match=None,\n\t\t\tclosest_match=closest_match,\n\t\t)\n")
+_MERGED = ("\tif strict:\n\t\tmatches = find_matches(zip_strict(ref_genomes, dists))\n\t\tpredicted = None\n\telse:\n\t\tmatches = None\n\t\tpredicted = closest_match.matched_taxon\n\n"
+           "\tif not matches:\n\t\treturn ClassifierResult(\n\t\t\tsuccess=True,\n\t\t\tpredicted_taxon=predicted,\n\t\t\tprimary_match=None if predicted is None else closest_match,\n"
+           "\t\t\tclosest_match=closest_match,\n\t\t)\n\n\tconsensus, others = consensus_taxon(matches.keys())\n")
+_NS_SPLIT = ("\tif not strict:\n\t\tif closest_match.matched_taxon is None:\n\t\t\treturn ClassifierResult(success=True, predicted_taxon=None, primary_match=None, closest_match=closest_match)\n"
+             "\t\treturn ClassifierResult(success=True, predicted_taxon=closest_match.matched_taxon, primary_match=closest_match, closest_match=closest_match)\n")
 VARIANTS = [
     V('threshold test strict <', 'B', _C, "if t.distance_threshold is not None and d <= t.distance_threshold:", "if t.distance_threshold is not None and d < t.distance_threshold:", 'D1'),
     V('matching_taxon skips the taxon itself', 'B', _C, "\tfor t in taxon.ancestors(incself=True):\n\t\tif t.distance_threshold", "\tfor t in taxon.ancestors(incself=False):\n\t\tif t.distance_threshold", 'D1'),
@@ -428,10 +1301,72 @@ VARIANTS = [
     V('next_taxon advance no longer skips threshold-less ancestors', 'B', _C, "\t\t\twhile hi is not None and hi.distance_threshold is None:\n\t\t\t\thi = hi.parent\n\n\t\treturn lo", "\n\t\treturn lo", 'D4'),
     V('report taxon from closest match taxon', 'B', _Q, "report_taxon=reportable_taxon(clsresult.predicted_taxon),", "report_taxon=reportable_taxon(clsresult.closest_match.genome.taxon),", 'D6'),
     V('closest match taxon from a different distance', 'B', _C, "matched_taxon=matching_taxon(ref_genomes[closest].taxon, dists[closest]),", "matched_taxon=matching_taxon(ref_genomes[closest].taxon, dists.mean()),", 'D3'),
+    # --- detection gaps found by the mutation probe on next_taxon: decided by evaluating the walk, whatever its syntax
+    V('next_taxon main loop runs while hi is None (never for a real lineage)', 'B', _C, "\t\twhile hi is not None:\n\t\t\tif hi.distance_threshold", "\t\twhile hi is None:\n\t\t\tif hi.distance_threshold", 'D4'),
+    V('next_taxon stop test requires the threshold to be absent (never true: walks to the root)', 'B', _C, "\t\t\tif hi.distance_threshold is not None and self.distance <= hi.distance_threshold:",
+      "\t\t\tif hi.distance_threshold is None and self.distance <= hi.distance_threshold:", 'D4'),
+    V('next_taxon start skip loop with or (runs off the root)', 'B', _C, "\t\twhile hi is not None and hi.distance_threshold is None:\n\t\t\thi = hi.parent\n\n\t\twhile hi is not None:",
+      "\t\twhile hi is not None or hi.distance_threshold is None:\n\t\t\thi = hi.parent\n\n\t\twhile hi is not None:", 'D4'),
+    V('next_taxon advance skip loop with or (runs off the root)', 'B', _C, "\t\t\twhile hi is not None and hi.distance_threshold is None:\n\t\t\t\thi = hi.parent\n\n\t\treturn lo",
+      "\t\t\twhile hi is not None or hi.distance_threshold is None:\n\t\t\t\thi = hi.parent\n\n\t\treturn lo", 'D4'),
+    # --- broken twins of the newly accepted forms
+    V('B: first-match idiom with strict <', 'B', _C, _MT_LOOP, "\treturn next((t for t in taxon.ancestors(incself=True) if t.distance_threshold is not None and d < t.distance_threshold), None)\n", 'D1'),
+    V('B: first-match idiom without the threshold-present filter (TypeError on a taxon without threshold)', 'B', _C, _MT_LOOP,
+      "\treturn next((t for t in taxon.ancestors(incself=True) if d <= t.distance_threshold), None)\n", 'D1'),
+    V('B: two-stage generator whose candidate filter is the truth value of the threshold (0.0 dropped)', 'B', _C, _MT_LOOP,
+      "\tcandidates = (t for t in taxon.ancestors(incself=True) if t.distance_threshold)\n\treturn next((t for t in candidates if d <= t.distance_threshold), None)\n", 'D1'),
+    V('B: first-match idiom takes the LAST qualifying taxon', 'B', _C, _MT_LOOP,
+      "\tfound = None\n\tfor t in taxon.ancestors(incself=True):\n\t\tif t.distance_threshold is not None and d <= t.distance_threshold:\n\t\t\tfound = t\n\treturn found\n", 'D1'),
+    V('B: next_taxon as for/continue/break where the stop became a continue', 'B', _C, _NT_BODY,
+      "\t\tlo = None\n\t\tfor hi in self.genome.taxon.ancestors(incself=True):\n\t\t\tif hi.distance_threshold is None:\n\t\t\t\tcontinue\n\t\t\tif self.distance <= hi.distance_threshold:\n\t\t\t\tcontinue\n\t\t\tlo = hi\n\t\treturn lo\n", 'D4'),
+    V('B: next_taxon as for/continue/break without skipping threshold-less taxa', 'B', _C, _NT_BODY,
+      "\t\tlo = None\n\t\tfor hi in self.genome.taxon.ancestors(incself=True):\n\t\t\tif hi.distance_threshold is not None and self.distance <= hi.distance_threshold:\n\t\t\t\tbreak\n\t\t\tlo = hi\n\t\treturn lo\n", 'D4'),
+    V('B: next_taxon over a filtered list returning the taxon that met its threshold', 'B', _C, _NT_BODY,
+      "\t\tbearing = [t for t in self.genome.taxon.ancestors(incself=True) if t.distance_threshold is not None]\n\t\tlo = None\n\t\tfor hi in bearing:\n\t\t\tif self.distance <= hi.distance_threshold:\n\t\t\t\treturn hi\n\t\t\tlo = hi\n\t\treturn lo\n", 'D4'),
+    V('B: next_taxon walks from the parent of the genome taxon', 'B', _C, _NT_BODY,
+      "\t\tlo = None\n\t\tfor hi in self.genome.taxon.ancestors():\n\t\t\tif hi.distance_threshold is None:\n\t\t\t\tcontinue\n\t\t\tif self.distance <= hi.distance_threshold:\n\t\t\t\tbreak\n\t\t\tlo = hi\n\t\treturn lo\n", 'D4'),
+    V('B: reportable first-match idiom accepts report=False (is not None)', 'B', _M, _RT_LOOP, "\treturn next((t for t in taxon.ancestors(incself=True) if t.report is not None), None)", 'D5'),
+    V('B: reportable first-match idiom without the None passthrough', 'B', _M, "\tif taxon is None:\n\t\treturn None\n\n" + _RT_LOOP, "\treturn next((t for t in taxon.ancestors(incself=True) if t.report), None)", 'D5'),
+    V('B: ancestors with a guard clause that yields self when incself is false', 'B', _M, _ANC_BODY,
+      "\t\tif not incself:\n\t\t\tyield self\n\t\ttaxon = self.parent\n\t\twhile taxon is not None:\n\t\t\tyield taxon\n\t\t\ttaxon = taxon.parent\n", 'D2'),
+    V('B: closest genome bound to a local at a fixed index', 'B', _C, _CM_OLD, _CM_LOCALS.replace("closest_genome = ref_genomes[closest]", "closest_genome = ref_genomes[0]"), 'D3'),
+    V('B: closest distance local rebound to another index before use', 'B', _C, _CM_OLD, _CM_LOCALS.replace("\tclosest_dist = dists[closest]\n", "\tclosest_dist = dists[closest]\n\tclosest = 0\n\tclosest_genome = ref_genomes[closest]\n"), 'D3'),
+    V('B: matched taxon left to the default, distance from index 0', 'B', _C, _CM_OLD, "\tclosest = np.argmin(dists)\n\tclosest_match = GenomeMatch(genome=ref_genomes[closest], distance=dists[0])\n", 'D3'),
+    V('B: non-strict result through a local with the arms of the primary match swapped', 'B', _C, _NS_OLD, _NS_LOCAL.replace("None if matched is None else closest_match", "closest_match if matched is None else None"), 'D3'),
+    V('B: primary match by if/else assignment with the arms swapped', 'B', _C, _NS_OLD, _NS_IFELSE.replace("\t\t\tprimary = None\n\t\telse:\n\t\t\tprimary = closest_match\n", "\t\t\tprimary = closest_match\n\t\telse:\n\t\t\tprimary = None\n"), 'D3'),
+    V('B: merged early return where the non-strict branch predicts nothing', 'B', _C, _NS_TO_NOMATCH, _MERGED.replace("\t\tmatches = None\n\t\tpredicted = closest_match.matched_taxon\n", "\t\tmatches = None\n\t\tpredicted = None\n"), 'D3'),
+    V('B: merged early return with the primary match condition negated', 'B', _C, _NS_TO_NOMATCH, _MERGED.replace("None if predicted is None else closest_match", "None if predicted is not None else closest_match"), 'D3'),
+    V('B: prediction taken from the first reference genome instead of the closest match', 'B', _C, _NS_OLD, _NS_LOCAL.replace("matched = closest_match.matched_taxon", "matched = matching_taxon(ref_genomes[0].taxon, dists[0])"), 'D3'),
+    V('B: non-strict result split by a guard clause, the no-prediction side still reports a primary match', 'B', _C, _NS_OLD,
+      _NS_SPLIT.replace("predicted_taxon=None, primary_match=None,", "predicted_taxon=None, primary_match=closest_match,"), 'D3'),
+    V('B: non-strict result split by a guard clause on the wrong condition', 'B', _C, _NS_OLD, _NS_SPLIT.replace("if closest_match.matched_taxon is None:", "if closest_match.matched_taxon is not None:"), 'D3'),
+    V('B: mode test inverted (closest-match-only result returned in strict mode, consensus code in default mode)', 'B', _C, "\tif not strict:\n\t\t# Use closest match only", "\tif strict:\n\t\t# Use closest match only", 'D3'),
+    V('B: first-match idiom with try/except StopIteration returning the start taxon when nothing qualifies', 'B', _C, _MT_LOOP,
+      "\ttry:\n\t\treturn next(t for t in taxon.ancestors(incself=True) if t.distance_threshold is not None and d <= t.distance_threshold)\n\texcept StopIteration:\n\t\treturn taxon\n", 'D1'),
     V('E: threshold >= d', 'E', _C, "if t.distance_threshold is not None and d <= t.distance_threshold:", "if t.distance_threshold is not None and t.distance_threshold >= d:"),
     V('E: guard split into nested ifs', 'E', _C, "\t\tif t.distance_threshold is not None and d <= t.distance_threshold:\n\t\t\treturn t",
       "\t\tif t.distance_threshold is not None:\n\t\t\tif d <= t.distance_threshold:\n\t\t\t\treturn t"),
     V('E: dists.argmin()', 'E', _C, "closest = np.argmin(dists)", "closest = dists.argmin()"),
     V('E: primary match test inverted with swapped arms', 'E', _C, "primary_match=closest_match if closest_match.matched_taxon is not None else None,",
       "primary_match=None if closest_match.matched_taxon is None else closest_match,"),
+    V('E: first-match idiom next((t for t in lineage if pred), None)', 'E', _C, _MT_LOOP,
+      "\tlineage = taxon.ancestors(incself=True)\n\treturn next((t for t in lineage if t.distance_threshold is not None and d <= t.distance_threshold), None)\n"),
+    V('E: two-stage generator (threshold-bearing candidates, then first covered)', 'E', _C, _MT_LOOP,
+      "\tcandidates = (t for t in taxon.ancestors(incself=True) if t.distance_threshold is not None)\n\treturn next((t for t in candidates if d <= t.distance_threshold), None)\n"),
+    V('E: matching_taxon as a while loop over .parent', 'E', _C, _MT_LOOP,
+      "\tt = taxon\n\twhile t is not None:\n\t\tthreshold = t.distance_threshold\n\t\tif threshold is not None and threshold >= d:\n\t\t\tbreak\n\t\tt = t.parent\n\treturn t\n"),
+    V('E: next_taxon as for/continue/break over ancestors', 'E', _C, _NT_BODY,
+      "\t\tlo = None\n\t\tfor hi in self.genome.taxon.ancestors(incself=True):\n\t\t\tif hi.distance_threshold is None:\n\t\t\t\tcontinue\n\t\t\tif self.distance <= hi.distance_threshold:\n\t\t\t\tbreak\n\t\t\tlo = hi\n\t\treturn lo\n"),
+    V('E: next_taxon over a filtered list of threshold-bearing taxa', 'E', _C, _NT_BODY,
+      "\t\tbearing = [t for t in self.genome.taxon.ancestors(incself=True) if t.distance_threshold is not None]\n\t\tlo = None\n\t\tfor hi in bearing:\n\t\t\tif self.distance <= hi.distance_threshold:\n\t\t\t\treturn lo\n\t\t\tlo = hi\n\t\treturn lo\n"),
+    V('E: reportable_taxon as first-match idiom', 'E', _M, _RT_LOOP, "\treturn next((t for t in taxon.ancestors(incself=True) if t.report), None)"),
+    V('E: ancestors with a guard clause for incself', 'E', _M, _ANC_BODY, "\t\tif incself:\n\t\t\tyield self\n\t\ttaxon = self.parent\n\t\twhile taxon is not None:\n\t\t\tyield taxon\n\t\t\ttaxon = taxon.parent\n"),
+    V('E: closest genome and distance bound to locals first', 'E', _C, _CM_OLD, _CM_LOCALS),
+    V('E: matched taxon of the closest match left to the attrs default', 'E', _C, _CM_OLD, "\tclosest = np.argmin(dists)\n\tclosest_match = GenomeMatch(genome=ref_genomes[closest], distance=dists[closest])\n"),
+    V('E: non-strict result through a local, test inverted with swapped arms', 'E', _C, _NS_OLD, _NS_LOCAL),
+    V('E: primary match by if/else assignment', 'E', _C, _NS_OLD, _NS_IFELSE),
+    V('E: non-strict return merged with the strict no-match return', 'E', _C, _NS_TO_NOMATCH, _MERGED),
+    V('E: non-strict result split by a guard clause (no prediction / prediction)', 'E', _C, _NS_OLD, _NS_SPLIT),
+    V('E: first-match idiom with try/except StopIteration', 'E', _C, _MT_LOOP,
+      "\ttry:\n\t\treturn next(t for t in taxon.ancestors(incself=True) if t.distance_threshold is not None and d <= t.distance_threshold)\n\texcept StopIteration:\n\t\treturn None\n"),
 ]
